@@ -881,3 +881,1409 @@ Proof.
   - rewrite app_nil_r. cbn [app]. exists s''. reflexivity.
 Qed.
 End Steps.
+
+(* ====================================================================== *)
+(** * 5. truncated files (C09) *)
+Section Trunc.
+Variable lo : lopts.
+Variable ds : doracle.
+
+Definition stops (tot : list event) : lres -> Prop :=
+  fun r => exists fin st, r = Ok (tot, fin, st).
+
+Lemma runs_weaken fuel R s tot (P Q : lres -> Prop) :
+  (forall r, P r -> Q r) -> runs lo ds fuel R s tot P -> runs lo ds fuel R s tot Q.
+Proof. intros H Hr n f evs acc Hn Hf Ht. apply H, Hr; assumption. Qed.
+
+(* the head of a record cannot be read completely, at top level *)
+Lemma top_head_short pcap s b sk :
+  at_top s (rd b None sk) -> blen b < 9 ->
+  exists fin s', forall f evs, lex_next lo ds (S f) pcap s evs = Ok (evs, NErr fin, s').
+Proof.
+  intros Htop Hb.
+  pose proof (fun f evs => lex_next_short lo ds f pcap s evs b None sk (at_top_cur _ _ Htop) Hb) as E.
+  destruct Htop as [Hc _]. unfold head_short in E. rewrite Hc in E. cbn [andb] in E.
+  destruct (err_eqb (short_err b None) EUnexpectedEOF || err_eqb (short_err b None) ETruncated).
+  - destruct (Nat.eqb (length b) 8 && bytes_eqb b magic); eexists; eexists; intros f evs; rewrite E; reflexivity.
+  - eexists; eexists; intros f evs; rewrite E; reflexivity.
+Qed.
+
+Lemma run_top_short fuel R s tot b sk :
+  at_top s (rd b None sk) -> blen b < 9 -> runs lo ds fuel R s tot (stops tot).
+Proof.
+  intros Htop Hb. destruct (top_head_short 0 s b sk Htop Hb) as (fin & s' & E).
+  eapply (runs_end lo ds _ _ s s' tot []).
+  - intros f evs. rewrite app_nil_r. apply E.
+  - rewrite app_nil_r. exists fin, s'. reflexivity.
+Qed.
+
+(* the body of a plain record cannot be read completely *)
+Lemma after_head_plain_short pcap s1 op n b pe sk :
+  cur s1 = rd b pe sk -> blen b < n ->
+  Byte.eqb op OpChunk && negb (lo_emit_chunks lo) = false ->
+  op <> OpAttachment ->
+  n < max_int32 -> len_ok lo n ->
+  exists fin s2, forall f evs, after_head lo ds f pcap s1 evs op n = Ok (evs, NErr fin, s2).
+Proof.
+  intros Hcur Hb Hck Hat Hn Hlim.
+  assert (Hms : exists s1', (if pcap <? n then make_safe n s1 else Ok s1) = Ok s1' /\ cur s1' = rd b pe sk).
+  { destruct (pcap <? n).
+    - unfold make_safe. destruct (N.ltb_spec n max_int32); [|lia].
+      eexists; split; [reflexivity|]. rewrite <- Hcur. unfold cur. cbn. reflexivity.
+    - exists s1. auto. }
+  destruct Hms as (s1' & Hms & Hcur').
+  unfold after_head. unfold len_ok in Hlim. rewrite Hlim, Hck, (byte_eqb_neq _ _ Hat), Hms, Hcur'.
+  rewrite rd_full_short by exact Hb. cbv beta iota zeta.
+  destruct (short_err b pe); eexists; eexists; intros f evs; reflexivity.
+Qed.
+
+Lemma firstn_app_ge {A} j (a b : list A) : (length a <= j)%nat -> firstn j (a ++ b) = a ++ firstn (j - length a) b.
+Proof. intro H. rewrite firstn_app, firstn_all2 by exact H. reflexivity. Qed.
+Lemma firstn_app_lt {A} j (a b : list A) : (j <= length a)%nat -> firstn j (a ++ b) = firstn j a.
+Proof. intro H. rewrite firstn_app. replace (j - length a)%nat with 0%nat by lia. cbn. apply app_nil_r. Qed.
+Lemma blen_firstn j (b : bytes) : (j <= length b)%nat -> blen (firstn j b) = N.of_nat j.
+Proof. intro H. unfold blen. rewrite firstn_length. lia. Qed.
+Lemma frame_head_length op n : length (frame_head op n) = 9%nat.
+Proof. unfold frame_head. cbn [length]. rewrite u64_length. reflexivity. Qed.
+
+Lemma run_plain_body_cut fuel R s tot op body j pe sk :
+  cur s = rd (frame_head op (blen body) ++ firstn j body) pe sk -> (j < length body)%nat ->
+  Byte.eqb op OpChunk && negb (lo_emit_chunks lo) = false ->
+  op <> OpAttachment ->
+  blen body < max_int32 -> len_ok lo (blen body) ->
+  runs lo ds fuel R s tot (stops tot).
+Proof.
+  intros Hcur Hj Hck Hat Hl Hlim.
+  set (s1 := set_cur (rd (firstn j body) pe sk) s).
+  destruct (after_head_plain_short 0 s1 op (blen body) (firstn j body) pe sk) as (fin & s2 & E); try assumption.
+  { unfold s1. apply (moved_cur s). apply moved_set_cur. }
+  { rewrite blen_firstn by lia. unfold blen. lia. }
+  eapply (runs_end lo ds _ _ s s2 tot []).
+  - intros f evs. rewrite app_nil_r.
+    rewrite (lex_next_head lo ds f 0 s evs op (blen body) _ pe sk Hcur) by (apply max_int32_lt_two64, Hl).
+    apply E.
+  - rewrite app_nil_r. exists fin, s2. reflexivity.
+Qed.
+
+Lemma run_plain_cut_top fuel R s tot op body j sk :
+  at_top s (rd (firstn j (frame op body)) None sk) -> (j < length (frame op body))%nat ->
+  Byte.eqb op OpChunk && negb (lo_emit_chunks lo) = false ->
+  op <> OpAttachment ->
+  blen body < max_int32 -> len_ok lo (blen body) ->
+  runs lo ds fuel R s tot (stops tot).
+Proof.
+  intros Htop Hj Hck Hat Hl Hlim. rewrite frame_length in Hj.
+  destruct (Nat.lt_ge_cases j 9) as [H9 | H9].
+  - eapply run_top_short; [exact Htop|]. rewrite blen_firstn by (rewrite frame_length; lia). lia.
+  - unfold frame in Htop. rewrite firstn_app_ge in Htop by (rewrite frame_head_length; exact H9).
+    rewrite frame_head_length in Htop.
+    eapply run_plain_body_cut; try eassumption; [apply at_top_cur; exact Htop | lia].
+Qed.
+
+(* the chunk reader ends (cleanly or not) inside a record head; the base reader is exhausted *)
+Lemma run_chunk_end fuel R s tot b pe csk sk :
+  in_chunk s (rd b pe csk) (rd [] None sk) -> blen b < 9 ->
+  runs lo ds fuel (S R) s tot (stops tot).
+Proof.
+  intros [Hc Hb] Hlen.
+  assert (Hcur : cur s = rd b pe csk) by (unfold cur; rewrite Hc; reflexivity).
+  pose proof (fun f evs => lex_next_short lo ds f 0 s evs b pe csk Hcur Hlen) as E.
+  unfold head_short in E. rewrite Hc in E. cbn [andb] in E.
+  set (e0 := short_err b pe) in *.
+  destruct (err_eqb e0 EEOF || (err_eqb e0 EUnexpectedEOF || err_eqb e0 ETruncated)) eqn:Hpop.
+  - set (s' := set_cur (rd [] pe csk) s <| lx_chunk := None |>) in *.
+    eapply (runs_silent lo ds _ _ s s' tot []).
+    + intros f evs. rewrite app_nil_r. apply E.
+    + rewrite app_nil_r. apply run_top_short with (b := []) (sk := sk); [|reflexivity].
+      split; [reflexivity|]. unfold s', set_cur. rewrite Hc. cbn. exact Hb.
+  - apply orb_false_iff in Hpop. destruct Hpop as [_ Hu]. rewrite Hu in E.
+    eapply (runs_end lo ds _ _ s _ tot []).
+    + intros f evs. rewrite app_nil_r. apply E.
+    + rewrite app_nil_r. eexists; eexists; reflexivity.
+Qed.
+
+Definition stops_within (tot full : list event) : lres -> Prop :=
+  fun r => exists partial fin st, r = Ok (tot ++ partial, fin, st) /\ is_prefix partial full.
+
+(* a chunk reader that delivers only a prefix of the chunk's records *)
+Lemma run_inner_cut fuel pe csk sk : forall inner m R s tot,
+  Forall (plain_rec_ok lo) inner ->
+  in_chunk s (rd (firstn m (frames inner)) pe csk) (rd [] None sk) ->
+  (length inner + R < fuel)%nat ->
+  runs lo ds fuel (length inner + S R) s tot (stops_within tot (concat (map rec_events inner))).
+Proof.
+  induction inner as [|[op body] inner IH]; intros m R s tot Hwf Hin Hfuel.
+  - cbn [length Nat.add]. eapply runs_weaken; [|eapply run_chunk_end with (b := firstn m (frames [])); [exact Hin|]].
+    + intros r (fin & st & ->). exists [], fin, st. rewrite app_nil_r. split; [reflexivity|]. exists []. reflexivity.
+    + rewrite firstn_nil. reflexivity.
+  - inversion Hwf as [|x l (Hc & Ha & H0 & Hl & Hlim) Hwf']; subst x l. cbn [fst snd] in *.
+    rewrite frames_cons in Hin. cbn [fst snd] in Hin.
+    assert (Hck : Byte.eqb op OpChunk && negb (lo_emit_chunks lo) = false) by (rewrite (byte_eqb_neq _ _ Hc); reflexivity).
+    destruct (Nat.lt_ge_cases m (length (frame op body))) as [Hm | Hm].
+    + (* cut inside this record *)
+      rewrite firstn_app_lt in Hin by lia.
+      eapply runs_weaken with (P := stops tot).
+      { intros r (fin & st & ->). exists [], fin, st. rewrite app_nil_r. split; [reflexivity|]. eexists. reflexivity. }
+      rewrite frame_length in Hm.
+      destruct (Nat.lt_ge_cases m 9) as [H9 | H9].
+      * apply runs_mono with (R := 1%nat); [|cbn [length]; lia].
+        eapply run_chunk_end; [exact Hin|].
+        rewrite blen_firstn by (rewrite frame_length; lia). lia.
+      * unfold frame in Hin. rewrite firstn_app_ge in Hin by (rewrite frame_head_length; exact H9).
+        rewrite frame_head_length in Hin.
+        eapply run_plain_body_cut with (j := (m - 9)%nat); try eassumption; [|lia].
+        destruct Hin as [Hc' _]. unfold cur. rewrite Hc'. reflexivity.
+    + (* this record is complete *)
+      rewrite firstn_app_ge in Hin by exact Hm.
+      cbn [length Nat.add] in *.
+      eapply run_plain; try eassumption.
+      * destruct Hin as [Hc' _]. unfold cur. rewrite Hc'. reflexivity.
+      * lia.
+      * intros s' Hmv.
+        eapply runs_weaken; [|eapply IH; [exact Hwf' | eapply moved_in_chunk; eassumption | lia]].
+        intros r (partial & fin & st & -> & (more & Hmore)).
+        exists (rec_events (op, body) ++ partial), fin, st. split; [rewrite app_assoc; reflexivity|].
+        exists more. cbn [map concat]. rewrite Hmore, app_assoc. reflexivity.
+Qed.
+
+Lemma err_eqb_neq a b : a <> b -> err_eqb a b = false.
+Proof. intro H. destruct a, b; try reflexivity; exfalso; apply H; reflexivity. Qed.
+
+Lemma after_head_chunk_err pcap s1 rlen e s2 :
+  load_chunk lo ds rlen s1 = (Some e, s2) -> e <> EInvalidChunkCrc ->
+  len_ok lo rlen -> lo_emit_chunks lo = false ->
+  forall f evs, after_head lo ds f pcap s1 evs OpChunk rlen = Ok (evs, NErr e, s2).
+Proof.
+  intros Hl He Hlim Hemit f evs. unfold after_head. unfold len_ok in Hlim.
+  rewrite Hlim, Hemit, byte_eqb_refl, Hl. cbn [andb negb]. rewrite (err_eqb_neq _ _ He), andb_false_r. reflexivity.
+Qed.
+
+Lemma load_chunk_fixed_short rlen s1 b sk :
+  at_top s1 (rd b None sk) -> blen b < 32 ->
+  exists e s2, load_chunk lo ds rlen s1 = (Some e, s2) /\ e <> EInvalidChunkCrc.
+Proof.
+  intros [Hc Hb] Hlen. unfold load_chunk. rewrite Hc, Hb, rd_full_short by exact Hlen.
+  cbv beta iota zeta. destruct b; cbn [short_err]; eexists; eexists; (split; [reflexivity | discriminate]).
+Qed.
+
+Lemma load_chunk_name_short rlen s1 st en us crc clen b sk :
+  at_top s1 (rd (chunk_fixed st en us crc clen ++ b) None sk) ->
+  clen < two32 -> clen + 8 < max_int32 -> 32 + (clen + 8) <= rlen ->
+  blen b < clen + 8 ->
+  exists s2, load_chunk lo ds rlen s1 = (Some ETruncated, s2).
+Proof.
+  intros [Hc Hb] Hcl Hneed Hrlen Hlen.
+  unfold load_chunk. rewrite Hc, Hb.
+  rewrite (rd_full_exact 32 (chunk_fixed st en us crc clen)) by (symmetry; apply chunk_fixed_blen).
+  cbv beta iota zeta.
+  rewrite chunk_fixed_clen by assumption.
+  destruct (N.ltb_spec rlen (32 + (clen + 8))); [lia|].
+  set (s1a := s1 <| lx_base := rd b None sk |>).
+  assert (Hg : exists s1b, (if lx_bufcap s1a <? clen + 8 then make_safe (clen + 8) s1a else Ok s1a) = Ok s1b
+               /\ lx_base (if lx_bufcap s1a <? clen + 8 then s1b <| lx_bufcap := clen + 8 |> else s1b) = rd b None sk).
+  { destruct (lx_bufcap s1a <? clen + 8).
+    - unfold make_safe. destruct (N.ltb_spec (clen + 8) max_int32); [|lia].
+      eexists; split; [reflexivity|]. reflexivity.
+    - exists s1a. split; reflexivity. }
+  destruct Hg as (s1b & -> & Hb2). rewrite Hb2, rd_full_short by exact Hlen.
+  cbv beta iota zeta. destruct b; cbn [short_err]; eexists; reflexivity.
+Qed.
+
+Lemma after_head_chunk_ok pcap s1 rlen s2 :
+  load_chunk lo ds rlen s1 = (None, s2) -> len_ok lo rlen -> lo_emit_chunks lo = false ->
+  forall f evs, after_head lo ds f pcap s1 evs OpChunk rlen = lex_next lo ds f pcap s2 evs.
+Proof.
+  intros Hl Hlim Hemit f evs. unfold after_head. unfold len_ok in Hlim.
+  rewrite Hlim, Hemit, byte_eqb_refl, Hl. reflexivity.
+Qed.
+
+Lemma check_part_short s b us crc comp plain pe :
+  blen plain < us ->
+  exists s', check_part lo s b us crc comp (rd plain pe false) = (Some (short_err plain pe), s').
+Proof. intro H. unfold check_part. rewrite rd_full_short by exact H. eexists. reflexivity. Qed.
+
+Lemma check_part_lz4_bad s b us crc comp data e :
+  is_lz4 comp = true -> us = blen data ->
+  exists s', check_part lo s b us crc comp (rd data (Some e) false) = (Some e, s').
+Proof.
+  intros Hlz ->. unfold check_part.
+  replace (rd data (Some e) false) with (rd (data ++ []) (Some e) false) by (rewrite app_nil_r; reflexivity).
+  rewrite rd_full_exact by reflexivity. cbv beta iota zeta. fold (is_lz4 comp). rewrite Hlz.
+  cbn [rd r_buf r_end]. eexists. reflexivity.
+Qed.
+
+Lemma lazy_len comp recs plain us :
+  is_lazy lo comp = true -> chunk_stream lo ds comp recs None = (plain, None) ->
+  (mem_bytes comp (lo_custom lo) = true -> us = blen recs) -> us = blen plain ->
+  blen plain = blen recs.
+Proof.
+  intros Hl Hs Hc Hus. unfold is_lazy in Hl. unfold chunk_stream in Hs.
+  destruct (mem_bytes comp (lo_custom lo)) eqn:Hm.
+  - rewrite <- Hus. apply Hc. reflexivity.
+  - rewrite orb_false_r in Hl. rewrite Hl in Hs. cbn in Hs. congruence.
+Qed.
+
+Lemma chunk_stream_prefix comp payload plain j :
+  codec_prefix_ok ds -> chunk_stream lo ds comp payload None = (plain, None) -> (j < length payload)%nat ->
+  exists n pe, chunk_stream lo ds comp (firstn j payload) None = (firstn n plain, pe) /\ pe <> Some EInvalidChunkCrc.
+Proof.
+  intros Hc Hs Hj. unfold chunk_stream in *.
+  destruct (bytes_eqb comp [] && negb (mem_bytes comp (lo_custom lo))).
+  - inversion Hs; subst. exists j, None. split; [reflexivity | discriminate].
+  - apply (Hc comp payload plain j Hs Hj).
+Qed.
+
+Lemma enc_chunk_split0 k :
+  enc_chunk k =
+  chunk_fixed (k_start k) (k_end k) (k_usize k) (k_crc k) (blen (k_comp k)) ++ k_comp k
+    ++ u64 (blen (k_records k)) ++ k_records k.
+Proof. rewrite <- (app_nil_r (enc_chunk k)), enc_chunk_split, app_nil_r. reflexivity. Qed.
+
+Lemma chunk_fixed_length st en us crc clen : length (chunk_fixed st en us crc clen) = 32%nat.
+Proof. unfold chunk_fixed. rewrite !app_length, !u64_length, !u32_length. reflexivity. Qed.
+
+Lemma stops_stops_within tot full r : stops tot r -> stops_within tot full r.
+Proof. intros (fin & st & ->). exists [], fin, st. rewrite app_nil_r. split; [reflexivity|]. exists full. reflexivity. Qed.
+
+Lemma run_chunk_cut fuel s tot k j sk :
+  at_top s (rd (firstn j (frame OpChunk (enc_chunk k))) None sk) ->
+  (j < length (frame OpChunk (enc_chunk k)))%nat ->
+  wf_chunk_item lo ds k -> lo_emit_chunks lo = false -> codec_prefix_ok ds ->
+  (item_steps lo ds (IChunk k) + 1 < fuel)%nat ->
+  runs lo ds fuel (item_steps lo ds (IChunk k) + 1) s tot (stops_within tot (item_events lo ds (IChunk k))).
+Proof.
+  intros Htop Hj (Wk & Wlen & W) Hemit Hcodec Hfuel. rewrite Hemit in W.
+  destruct W as (Wsup & Wneed & Wrecs & inner & Wstream & Wus & Winner & Wcrc & Wval).
+  cbn [item_steps item_events] in *. rewrite Hemit in *.
+  rewrite (chunk_inner_eq lo ds k inner Wstream Winner) in *.
+  pose proof Wk as (_ & _ & Wu64 & Wc32 & Wcl & _).
+  assert (Hb64 : blen (enc_chunk k) < two64).
+  { rewrite enc_chunk_blen. unfold two63, two32, two64 in *. lia. }
+  rewrite frame_length in Hj.
+  destruct (Nat.lt_ge_cases j 9) as [H9 | H9].
+  { eapply runs_weaken; [apply stops_stops_within|].
+    eapply run_top_short; [exact Htop|]. rewrite blen_firstn by (rewrite frame_length; lia). lia. }
+  unfold frame in Htop. rewrite firstn_app_ge in Htop by (rewrite frame_head_length; exact H9).
+  rewrite frame_head_length in Htop.
+  set (j1 := (j - 9)%nat) in *.
+  set (s1 := set_cur (rd (firstn j1 (enc_chunk k)) None sk) s).
+  assert (Htop1 : at_top s1 (rd (firstn j1 (enc_chunk k)) None sk)) by (eapply at_top_set_cur; exact Htop).
+  assert (Hhead : forall f evs, lex_next lo ds (S f) 0 s evs = after_head lo ds f 0 s1 evs OpChunk (blen (enc_chunk k))).
+  { intros f evs. apply (lex_next_head lo ds f 0 s evs OpChunk (blen (enc_chunk k)) _ None sk (at_top_cur _ _ Htop) Hb64). }
+  (* an error of loadChunk ends the read *)
+  assert (Herr : forall e s2, load_chunk lo ds (blen (enc_chunk k)) s1 = (Some e, s2) -> e <> EInvalidChunkCrc ->
+                 runs lo ds fuel (S (S (length inner)) + 1) s tot (stops_within tot (concat (map rec_events inner)))).
+  { intros e s2 Hl He. eapply runs_weaken; [apply stops_stops_within|].
+    eapply (runs_end lo ds _ _ s s2 tot [] e).
+    - intros f evs. rewrite app_nil_r, Hhead. apply after_head_chunk_err; assumption.
+    - rewrite app_nil_r. eexists; eexists; reflexivity. }
+  rewrite enc_chunk_split0 in Htop1.
+  destruct (Nat.lt_ge_cases j1 32) as [H32 | H32].
+  { destruct (load_chunk_fixed_short (blen (enc_chunk k)) s1 _ sk Htop1) as (e & s2 & Hl & He).
+    - rewrite <- enc_chunk_split0. rewrite blen_firstn; [lia|]. unfold j1. lia.
+    - eapply Herr; eassumption. }
+  rewrite firstn_app_ge in Htop1 by (rewrite chunk_fixed_length; exact H32).
+  rewrite chunk_fixed_length in Htop1.
+  set (j2 := (j1 - 32)%nat) in *.
+  assert (Hlen_enc : length (enc_chunk k) = (32 + (length (k_comp k) + 8) + length (k_records k))%nat).
+  { pose proof (enc_chunk_blen k) as E. unfold blen in E. lia. }
+  assert (Hrl : 32 + (blen (k_comp k) + 8) <= blen (enc_chunk k)) by (rewrite enc_chunk_blen; lia).
+  destruct (Nat.lt_ge_cases j2 (length (k_comp k) + 8)) as [Hn | Hn].
+  { destruct (load_chunk_name_short (blen (enc_chunk k)) s1 _ _ _ _ _ _ sk Htop1) as (s2 & Hl); try assumption.
+    - rewrite blen_firstn.
+      + unfold blen. lia.
+      + rewrite !app_length, u64_length. lia.
+    - eapply Herr; [exact Hl | discriminate]. }
+  rewrite (app_assoc (k_comp k)), firstn_app_ge in Htop1 by (rewrite app_length, u64_length; exact Hn).
+  rewrite <- app_assoc in Htop1. rewrite app_length, u64_length in Htop1.
+  set (j3 := (j2 - (length (k_comp k) + 8))%nat) in *.
+  assert (Hj3 : (j3 < length (k_records k))%nat) by (unfold j3, j2, j1; lia).
+  set (X := firstn j3 (k_records k)) in *.
+  assert (HX : blen X < blen (k_records k)) by (unfold X; rewrite blen_firstn by lia; unfold blen; lia).
+  destruct (load_chunk_eq lo ds (blen (enc_chunk k)) s1 _ _ _ _ _ _ X None sk Htop1) as (s' & [Hc' Hb'] & Hload); try assumption.
+  rewrite (take_ge _ X), (drop_ge _ X) in * by lia.
+  replace (if blen (k_records k) <=? blen X then None else None) with (@None err) in Hload by (destruct (_ <=? _); reflexivity).
+  destruct (chunk_stream_prefix _ _ _ j3 Hcodec Wstream Hj3) as (n & pe & Hcs & Hpe). fold X in Hcs.
+  rewrite Hcs in Hload. cbv zeta in Hload. cbn [fst snd] in Hload.
+  destruct (lo_validate lo) eqn:Hv.
+  - (* validating *)
+    destruct (Wval eq_refl) as (V1 & V2 & V3).
+    destruct (finish_chunk_val lo s' (rd X None sk) (k_usize k) (k_crc k) (k_comp k) (firstn n (frames inner)) pe Hv V2 V1)
+      as (s'' & Hin & Hfin).
+    rewrite Hfin in Hload. rewrite Hb' in Hin.
+    destruct (Nat.lt_ge_cases n (length (frames inner))) as [Hn' | Hn'].
+    + destruct (check_part_short s'' (rd X None sk) (k_usize k) (k_crc k) (k_comp k) (firstn n (frames inner)) pe) as (s3 & Hcp).
+      { rewrite blen_firstn by lia. rewrite Wus. unfold blen. lia. }
+      rewrite Hcp in Hload. eapply Herr; [exact Hload|].
+      destruct pe as [e|]; cbn [short_err]; [congruence | destruct (firstn n (frames inner)); discriminate].
+    + rewrite firstn_all2 in * by exact Hn'.
+      assert (Hgood : (is_lz4 (k_comp k) = true -> pe = None) ->
+                runs lo ds fuel (S (S (length inner)) + 1) s tot (stops_within tot (concat (map rec_events inner)))).
+      { intro Hlzok.
+        replace (rd (frames inner) pe false) with (rd (frames inner ++ []) pe false) in Hload by (rewrite app_nil_r; reflexivity).
+        destruct (check_part_ok lo s'' _ _ (rd X None sk) (k_usize k) (k_crc k) (k_comp k) (frames inner) [] pe Hin Wus)
+          as (s3 & Hin3 & Hcp); auto.
+        rewrite Hcp in Hload.
+        assert (Hin3' : in_chunk s3 (rd (frames inner ++ []) None true) (rd [] None sk)).
+        { rewrite app_nil_r. destruct (is_lazy lo (k_comp k)) eqn:Hl; [|exact Hin3].
+          cbn [rd r_buf r_end r_seek] in Hin3. rewrite drop_ge in Hin3; [exact Hin3|].
+          rewrite (lazy_len _ _ _ _ Hl Wstream V3 Wus). lia. }
+        apply runs_mono with (R := S (length inner + 2)); [|lia].
+        eapply (runs_silent lo ds _ _ s s3 tot []).
+        { intros f evs. rewrite app_nil_r, Hhead. apply after_head_chunk_ok; assumption. }
+        rewrite app_nil_r.
+        eapply (run_inner lo ds fuel _ (rd [] None sk) None true []); try eassumption; [lia|].
+        intros s4 Hin4.
+        destruct (lex_next_pop lo ds 0 s4 _ _ Hin4) as (s5 & Htop5 & Hpop).
+        eapply (runs_silent lo ds _ _ s4 s5 _ []).
+        { intros f evs. rewrite app_nil_r. apply Hpop. }
+        rewrite app_nil_r.
+        eapply runs_weaken; [|eapply run_top_short with (b := []); [exact Htop5 | reflexivity]].
+        intros r (fin & st & ->). exists (concat (map rec_events inner)), fin, st. split; [reflexivity|].
+        exists []. rewrite app_nil_r. reflexivity. }
+      destruct (is_lz4 (k_comp k)) eqn:Hlz; [destruct pe as [e|]|].
+      * destruct (check_part_lz4_bad s'' (rd X None sk) (k_usize k) (k_crc k) (k_comp k) (frames inner) e Hlz Wus) as (s3 & Hcp).
+        rewrite Hcp in Hload. eapply Herr; [exact Hload | congruence].
+      * apply Hgood. reflexivity.
+      * apply Hgood. discriminate.
+  - (* streaming *)
+    destruct (finish_chunk_stream lo s' (rd X None sk) (k_usize k) (k_crc k) (k_comp k) (firstn n (frames inner)) pe Hv)
+      as (s'' & Hin & Hfin).
+    rewrite Hfin in Hload. rewrite Hb' in Hin.
+    apply runs_mono with (R := S (length inner + 2)); [|lia].
+    eapply (runs_silent lo ds _ _ s s'' tot []).
+    { intros f evs. rewrite app_nil_r, Hhead. apply after_head_chunk_ok; assumption. }
+    rewrite app_nil_r. apply (run_inner_cut fuel pe false sk inner n 1%nat s'' tot); try assumption. lia.
+Qed.
+
+(* ----- attachments cut ----- *)
+Lemma rd_skip_short n b sk :
+  blen b < n -> rd_skip n (rd b None sk) = (if sk then None else Some EEOF, rd [] None sk).
+Proof.
+  intro H. unfold rd_skip, rd. cbn [r_seek r_buf r_end]. destruct sk.
+  - rewrite drop_ge by lia. reflexivity.
+  - destruct (N.ltb_spec (blen b) n); [|lia]. reflexivity.
+Qed.
+
+Lemma sub_firstn (full : bytes) j off n : (off + n <= j)%nat -> sub (firstn j full) off n = sub full off n.
+Proof.
+  intro H. unfold sub. replace j with (off + (j - off))%nat by lia.
+  rewrite <- firstn_skipn_comm, firstn_firstn. f_equal. lia.
+Qed.
+
+Lemma lim_read_cut_ok n (full : bytes) pe0 pe off x off' j :
+  lim_read n (full, pe0) off = Ok (x, off') -> (off' <= j)%nat -> (j <= length full)%nat ->
+  lim_read n (firstn j full, pe) off = Ok (x, off').
+Proof.
+  unfold lim_read. intros H Hj Hl.
+  destruct (Nat.leb_spec (off + n) (length full)); [|discriminate]. inversion H; subst.
+  rewrite firstn_length, Nat.min_l by exact Hl.
+  destruct (Nat.leb_spec (off + n) j); [|lia]. rewrite sub_firstn by lia. reflexivity.
+Qed.
+
+Lemma lim_read_cut_fail n (full : bytes) pe0 off x off' j :
+  lim_read n (full, pe0) off = Ok (x, off') -> (j < off')%nat -> (j <= length full)%nat ->
+  exists e, lim_read n (firstn j full, None) off = Err e.
+Proof.
+  unfold lim_read. intros H Hj Hl.
+  destruct (Nat.leb_spec (off + n) (length full)); [|discriminate]. inversion H; subst.
+  rewrite firstn_length, Nat.min_l by exact Hl.
+  destruct (Nat.leb_spec (off + n) j); [lia|]. eexists. reflexivity.
+Qed.
+
+Lemma lim_pstr_cut_ok (full : bytes) pe0 pe off x off' j :
+  lim_pstr (full, pe0) off = Ok (x, off') -> (off' <= j)%nat -> (j <= length full)%nat ->
+  lim_pstr (firstn j full, pe) off = Ok (x, off').
+Proof.
+  unfold lim_pstr. intros H Hj Hl.
+  destruct (lim_read 4 (full, pe0) off) as [[lb off1]| | | |] eqn:E; try discriminate.
+  assert (Hoff1 : (off1 = off + 4)%nat).
+  { unfold lim_read in E. destruct (Nat.leb (off + 4) (length full)); inversion E; reflexivity. }
+  destruct (N.leb_spec (N.of_nat off1 + unle lb) (blen full)); [|discriminate]. inversion H; subst x off'.
+  rewrite (lim_read_cut_ok 4 full pe0 pe off lb off1 j E) by lia.
+  rewrite blen_firstn by exact Hl.
+  destruct (N.leb_spec (N.of_nat off1 + unle lb) (N.of_nat j)); [|lia].
+  rewrite sub_firstn by lia. reflexivity.
+Qed.
+
+Lemma lim_pstr_cut_fail (full : bytes) pe0 off x off' j :
+  lim_pstr (full, pe0) off = Ok (x, off') -> (j < off')%nat -> (j <= length full)%nat ->
+  exists e, lim_pstr (firstn j full, None) off = Err e.
+Proof.
+  unfold lim_pstr. intros H Hj Hl.
+  destruct (lim_read 4 (full, pe0) off) as [[lb off1]| | | |] eqn:E; try discriminate.
+  destruct (N.leb_spec (N.of_nat off1 + unle lb) (blen full)); [|discriminate]. inversion H; subst x off'.
+  destruct (Nat.lt_ge_cases j off1) as [Hc | Hc].
+  - destruct (lim_read_cut_fail 4 full pe0 off lb off1 j E Hc Hl) as (e & ->). eexists. reflexivity.
+  - rewrite (lim_read_cut_ok 4 full pe0 None off lb off1 j E Hc Hl).
+    rewrite blen_firstn by exact Hl.
+    destruct (N.leb_spec (N.of_nat off1 + unle lb) (N.of_nat j)); [lia|]. eexists. reflexivity.
+Qed.
+
+Definition att_o3 (a : attachment) : nat := (0 + 8 + 8 + 4 + length (a_name a))%nat.
+Definition att_o4 (a : attachment) : nat := (att_o3 a + 4 + length (a_media a))%nat.
+Definition att_o5 (a : attachment) : nat := (att_o4 a + 8)%nat.
+
+Lemma att_parse_full a data crc :
+  wf_attach_item lo a data crc ->
+  let body := attach_body a data crc in
+  lim_read 8 (body, None) 0 = Ok (u64 (a_log a), (0 + 8)%nat)
+  /\ lim_read 8 (body, None) (0 + 8) = Ok (u64 (a_create a), (0 + 8 + 8)%nat)
+  /\ lim_pstr (body, None) (0 + 8 + 8) = Ok (a_name a, att_o3 a)
+  /\ lim_pstr (body, None) (att_o3 a) = Ok (a_media a, att_o4 a)
+  /\ lim_read 8 (body, None) (att_o4 a) = Ok (u64 (a_size a), att_o5 a)
+  /\ skipn (att_o5 a) body = data ++ u32 crc
+  /\ att_o5 a = length (enc_attachment_fields a).
+Proof.
+  intros (W1 & W2 & W3 & W4 & W5 & W6 & W7 & _ & Wcb) body.
+  assert (H : skipn 0 body = u64 (a_log a) ++ u64 (a_create a) ++ pstr (a_name a) ++ pstr (a_media a)
+                             ++ u64 (a_size a) ++ data ++ u32 crc).
+  { unfold body, attach_body, enc_attachment_fields. rewrite <- !app_assoc. reflexivity. }
+  destruct (lim_read_step 8 body None _ _ _ H (u64_length _)) as [E1 S1]; [lia|].
+  destruct (lim_read_step 8 body None _ _ _ S1 (u64_length _)) as [E2 S2]; [lia|].
+  destruct (lim_pstr_step body None _ _ _ S2 W3) as [E3 S3].
+  destruct (lim_pstr_step body None _ _ _ S3 W4) as [E4 S4].
+  destruct (lim_read_step 8 body None _ _ _ S4 (u64_length _)) as [E5 S5]; [lia|].
+  repeat split; try assumption.
+  unfold att_o5, att_o4, att_o3, enc_attachment_fields.
+  rewrite !app_length, !pstr_length, !u64_length. lia.
+Qed.
+
+Lemma do_attachment_cut a data crc j sk :
+  wf_attach_item lo a data crc ->
+  (j < length (attach_body a data crc))%nat ->
+  exists ev e,
+    do_attachment lo (blen (attach_body a data crc)) (rd (firstn j (attach_body a data crc)) None sk)
+      = (ev, e, rd [] None sk)
+    /\ match ev with
+       | None => True
+       | Some ev => exists c, ev = EvAttachment c /\ lo_cb lo = CbFull /\ att_cut c (attach_obs lo a data crc)
+       end.
+Proof.
+  intros W Hj. pose proof (att_parse_full a data crc W) as (E1 & E2 & E3 & E4 & E5 & S5 & Ho5).
+  pose proof W as (W1 & W2 & W3 & W4 & W5 & W6 & W7 & _ & Wcb).
+  set (body := attach_body a data crc) in *.
+  set (X := firstn j body).
+  assert (HX : blen X < blen body) by (unfold X; rewrite blen_firstn by lia; unfold blen; lia).
+  assert (Hlen : length body = (att_o5 a + length data + 4)%nat).
+  { rewrite Ho5. unfold body, attach_body. rewrite !app_length, u32_length. lia. }
+  unfold do_attachment. destruct Wcb as [Hcb | Hcb]; rewrite Hcb; cbv beta iota zeta.
+  - rewrite rd_skip_short by exact HX. eexists; eexists; split; [reflexivity | exact I].
+  - assert (Hlim : limited (blen body) (rd X None sk) = (X, None)).
+    { unfold limited, rd. cbn [r_buf r_end]. destruct (N.leb_spec (blen body) (blen X)); [lia|]. reflexivity. }
+    rewrite Hlim. cbn [fst snd].
+    assert (Hjl : (j <= length body)%nat) by lia.
+    destruct (Nat.lt_ge_cases j (att_o5 a)) as [Hshort | Hfields].
+    + (* cut inside the fields: parseAttachmentReader fails *)
+      assert (Hfail : exists e, (let* (lt, o1) := lim_read 8 (X, None) 0 in
+                                 let* (ct, o2) := lim_read 8 (X, None) o1 in
+                                 let* (name, o3) := lim_pstr (X, None) o2 in
+                                 let* (media, o4) := lim_pstr (X, None) o3 in
+                                 let* (ds0, o5) := lim_read 8 (X, None) o4 in
+                                 Ok (unle lt, unle ct, name, media, unle ds0, o5)) = Err e).
+      { unfold X.
+        destruct (Nat.lt_ge_cases j (0 + 8)) as [C1 | C1].
+        { destruct (lim_read_cut_fail _ _ _ _ _ _ j E1 C1 Hjl) as (e & ->). eexists; reflexivity. }
+        rewrite (lim_read_cut_ok _ _ _ None _ _ _ j E1 C1 Hjl). cbn [bind].
+        destruct (Nat.lt_ge_cases j (0 + 8 + 8)) as [C2 | C2].
+        { destruct (lim_read_cut_fail _ _ _ _ _ _ j E2 C2 Hjl) as (e & ->). eexists; reflexivity. }
+        rewrite (lim_read_cut_ok _ _ _ None _ _ _ j E2 C2 Hjl). cbn [bind].
+        destruct (Nat.lt_ge_cases j (att_o3 a)) as [C3 | C3].
+        { destruct (lim_pstr_cut_fail _ _ _ _ _ j E3 C3 Hjl) as (e & ->). eexists; reflexivity. }
+        rewrite (lim_pstr_cut_ok _ _ None _ _ _ j E3 C3 Hjl). cbn [bind].
+        destruct (Nat.lt_ge_cases j (att_o4 a)) as [C4 | C4].
+        { destruct (lim_pstr_cut_fail _ _ _ _ _ j E4 C4 Hjl) as (e & ->). eexists; reflexivity. }
+        rewrite (lim_pstr_cut_ok _ _ None _ _ _ j E4 C4 Hjl). cbn [bind].
+        destruct (lim_read_cut_fail _ _ _ _ _ _ j E5 Hshort Hjl) as (e & ->). eexists; reflexivity. }
+      destruct Hfail as (e & ->).
+      rewrite drop_all. eexists; eexists; split; [reflexivity | exact I].
+    + unfold X at 1 2 3 4 5.
+      assert (C3 : (att_o3 a <= j)%nat) by (unfold att_o5, att_o4 in Hfields; lia).
+      assert (C4 : (att_o4 a <= j)%nat) by (unfold att_o5 in Hfields; lia).
+      rewrite (lim_read_cut_ok _ _ _ None _ _ _ j E1) by (unfold att_o3 in C3; lia). cbn [bind].
+      rewrite (lim_read_cut_ok _ _ _ None _ _ _ j E2) by (unfold att_o3 in C3; lia). cbn [bind].
+      rewrite (lim_pstr_cut_ok _ _ None _ _ _ j E3 C3 Hjl). cbn [bind].
+      rewrite (lim_pstr_cut_ok _ _ None _ _ _ j E4 C4 Hjl). cbn [bind].
+      rewrite (lim_read_cut_ok _ _ _ None _ _ _ j E5 Hfields Hjl). cbn [bind].
+      assert (Hsz : a_size a < two63).
+      { rewrite W5. unfold body, attach_body in W7. rewrite !blen_app in W7. lia. }
+      rewrite !unle_u64 by (try assumption; unfold two63, two64 in *; lia).
+      destruct (N.ltb_spec 9223372036854775807 (a_size a)); [unfold two63 in Hsz; lia|].
+      assert (Hrest : skipn (att_o5 a) X = firstn (j - att_o5 a) (data ++ u32 crc)).
+      { unfold X. replace j with (att_o5 a + (j - att_o5 a))%nat at 1 by lia.
+        rewrite <- firstn_skipn_comm, S5. reflexivity. }
+      rewrite Hrest.
+      assert (HXlen : length X = j) by (unfold X; rewrite firstn_length; lia).
+      destruct (Nat.lt_ge_cases (j - att_o5 a) (length data)) as [Hd | Hd].
+      * (* cut inside the data *)
+        rewrite firstn_app_lt by lia.
+        set (got := firstn (j - att_o5 a) data).
+        assert (Hgot : blen got < a_size a) by (unfold got; rewrite blen_firstn by lia; rewrite W5; unfold blen; lia).
+        rewrite (take_ge (a_size a) got) by lia.
+        destruct (N.ltb_spec (blen got) (a_size a)); [|lia].
+        assert (Hpos : (att_o5 a + length got)%nat = j) by (unfold got; rewrite firstn_length; lia).
+        rewrite Hpos. cbn [rd r_buf r_end r_seek].
+        replace (skipn j X) with (@nil byte) by (symmetry; apply skipn_all2; lia).
+        change {| r_buf := []; r_end := None; r_seek := sk |} with (rd [] None sk).
+        rewrite rd_skip_short by (change (blen []) with 0; unfold blen in *; lia).
+        eexists; eexists; split; [reflexivity|].
+        eexists; split; [reflexivity|]. split; [reflexivity|].
+        unfold att_cut, attach_obs. cbn. repeat split; try reflexivity.
+        -- exists (skipn (j - att_o5 a) data). unfold got. symmetry. apply firstn_skipn.
+        -- eexists; reflexivity.
+      * (* the data is complete, the stored CRC is cut *)
+        rewrite firstn_app_ge by exact Hd.
+        rewrite W5, take_app_exact.
+        rewrite N.ltb_irrefl.
+        assert (Hcrcfail : exists e, lim_read 4 (X, None) (att_o5 a + length data) = Err e).
+        { unfold lim_read. rewrite HXlen. destruct (Nat.leb_spec (att_o5 a + length data + 4) j); [lia|]. eexists; reflexivity. }
+        destruct Hcrcfail as (e & ->).
+        cbn [rd r_buf r_end r_seek fst]. rewrite HXlen.
+        replace (skipn j X) with (@nil byte) by (symmetry; apply skipn_all2; lia).
+        change {| r_buf := []; r_end := None; r_seek := sk |} with (rd [] None sk).
+        rewrite rd_skip_short by (change (blen []) with 0; unfold blen in *; lia).
+        eexists; eexists; split; [reflexivity|].
+        eexists; split; [reflexivity|]. split; [reflexivity|].
+        unfold att_cut, attach_obs. cbn. repeat split; try reflexivity.
+        -- symmetry; exact W5.
+        -- exists []. rewrite app_nil_r. reflexivity.
+        -- eexists; reflexivity.
+Qed.
+
+Definition cut_result (tot full : list event) : lres -> Prop :=
+  fun r => exists partial fin st, r = Ok (tot ++ partial, fin, st) /\ event_prefix partial full.
+
+Lemma stops_within_cut_result tot full r : stops_within tot full r -> cut_result tot full r.
+Proof. intros (p & fin & st & -> & Hp). exists p, fin, st. split; [reflexivity|]. left. exact Hp. Qed.
+Lemma stops_cut_result tot full r : stops tot r -> cut_result tot full r.
+Proof. intro H. apply stops_within_cut_result, stops_stops_within, H. Qed.
+
+Lemma run_attach_cut fuel R s tot a data crc j sk :
+  at_top s (rd (firstn j (frame OpAttachment (attach_body a data crc))) None sk) ->
+  (j < length (frame OpAttachment (attach_body a data crc)))%nat ->
+  wf_attach_item lo a data crc ->
+  runs lo ds fuel (S R) s tot (cut_result tot (item_events lo ds (IAttach a data crc))).
+Proof.
+  intros Htop Hj W.
+  pose proof W as (_ & _ & _ & _ & _ & _ & W7 & Wlen & _).
+  set (body := attach_body a data crc) in *.
+  rewrite frame_length in Hj.
+  destruct (Nat.lt_ge_cases j 9) as [H9 | H9].
+  { eapply runs_weaken; [apply stops_cut_result|].
+    eapply run_top_short; [exact Htop|]. rewrite blen_firstn by (rewrite frame_length; lia). lia. }
+  unfold frame in Htop. rewrite firstn_app_ge in Htop by (rewrite frame_head_length; exact H9).
+  rewrite frame_head_length in Htop.
+  set (j1 := (j - 9)%nat) in *.
+  set (s1 := set_cur (rd (firstn j1 body) None sk) s).
+  assert (Htop1 : at_top s1 (rd (firstn j1 body) None sk)) by (eapply at_top_set_cur; exact Htop).
+  destruct (do_attachment_cut a data crc j1 sk W) as (ev & e & Hdo & Hev); [unfold j1; fold body; lia|].
+  fold body in Hdo.
+  set (s2 := set_cur (rd [] None sk) s1).
+  assert (Htop2 : at_top s2 (rd [] None sk)) by (eapply at_top_set_cur; exact Htop1).
+  set (new := match ev with Some ev => [ev] | None => [] end).
+  assert (Hhead : forall f evs, lex_next lo ds (S f) 0 s evs =
+            match e with Some e => Ok (evs ++ new, NErr e, s2) | None => lex_next lo ds f 0 s2 (evs ++ new) end).
+  { intros f evs.
+    rewrite (lex_next_head lo ds f 0 s evs OpAttachment (blen body) _ None sk (at_top_cur _ _ Htop))
+      by (unfold two63, two64 in *; lia).
+    fold s1. unfold after_head. unfold len_ok in Wlen. rewrite Wlen.
+    change (Byte.eqb OpAttachment OpChunk) with false. cbn [andb]. rewrite byte_eqb_refl.
+    destruct (N.ltb_spec 9223372036854775807 (blen body)); [unfold two63 in W7; lia|].
+    rewrite (at_top_cur _ _ Htop1), Hdo. cbv beta iota zeta. fold s2. unfold new.
+    destruct ev; [|rewrite app_nil_r]; reflexivity. }
+  assert (Hnew : event_prefix new (item_events lo ds (IAttach a data crc))).
+  { unfold new. destruct ev as [ev|].
+    - destruct Hev as (c & -> & Hcb & Hcut). cbn [item_events]. rewrite Hcb.
+      right. exists [], c, (attach_obs lo a data crc), []. split; [reflexivity|]. split; [reflexivity | exact Hcut].
+    - left. eexists. reflexivity. }
+  destruct e as [e|].
+  - eapply (runs_end lo ds _ _ s s2 tot new e); [exact Hhead|].
+    exists new, e, s2. split; [reflexivity | exact Hnew].
+  - eapply (runs_silent lo ds _ _ s s2 tot new); [exact Hhead|].
+    eapply runs_weaken; [|eapply run_top_short with (b := []); [exact Htop2 | reflexivity]].
+    intros r (fin & st & ->). exists new, fin, st. split; [reflexivity | exact Hnew].
+Qed.
+
+Lemma run_item_cut fuel s tot it j sk :
+  at_top s (rd (firstn j (render_item it)) None sk) -> (j < length (render_item it))%nat ->
+  wf_item lo ds it -> codec_prefix_ok ds ->
+  (item_steps lo ds it + 1 < fuel)%nat ->
+  runs lo ds fuel (item_steps lo ds it + 1) s tot (cut_result tot (item_events lo ds it)).
+Proof.
+  intros Htop Hj W Hcodec Hfuel.
+  destruct it as [|op body|k|a data crc|ss sos crc]; cbn [render_item] in *.
+  - destruct W.
+  - destruct W as (Hc & Ha & H0 & Hl & Hlim). cbn [fst snd] in *.
+    eapply runs_weaken; [apply stops_cut_result|].
+    eapply run_plain_cut_top; try eassumption. rewrite (byte_eqb_neq _ _ Hc). reflexivity.
+  - destruct (lo_emit_chunks lo) eqn:Hemit.
+    + destruct W as (Wk & Wlen & W). rewrite Hemit in W.
+      eapply runs_weaken; [apply stops_cut_result|].
+      eapply run_plain_cut_top; try eassumption; [rewrite Hemit; apply andb_false_r | discriminate].
+    + eapply runs_weaken; [apply stops_within_cut_result|].
+      eapply run_chunk_cut; eassumption.
+  - cbn [item_steps Nat.add]. eapply run_attach_cut; eassumption.
+  - destruct W as (W1 & W2 & W3 & Wlim).
+    set (body := enc_footer _) in *.
+    assert (Hb : blen body = 20).
+    { unfold body, enc_footer, blen. rewrite !app_length, !u64_length, u32_length. reflexivity. }
+    eapply runs_weaken; [apply stops_cut_result|].
+    eapply run_plain_cut_top; try eassumption; try discriminate; try reflexivity.
+Qed.
+
+Definition cut_at (items : list item) (j : nat) (tot : list event) : lres -> Prop :=
+  fun r => exists done it post partial fin st,
+    items = done ++ it :: post
+    /\ (length (render done) <= j < length (render (done ++ [it])))%nat
+    /\ r = Ok (tot ++ file_events lo ds done ++ partial, fin, st)
+    /\ event_prefix partial (item_events lo ds it).
+
+Lemma run_items_cut fuel sk : codec_prefix_ok ds -> forall items j s tot,
+  Forall (wf_item lo ds) items ->
+  (j < length (render (items ++ [IMagic])))%nat ->
+  at_top s (rd (firstn j (render (items ++ [IMagic]))) None sk) ->
+  (file_steps lo ds items + 2 < fuel)%nat ->
+  runs lo ds fuel (file_steps lo ds items + 2) s tot (cut_at (items ++ [IMagic]) j tot).
+Proof.
+  intros Hcodec. induction items as [|it items IH]; intros j s tot Hwf Hj Htop Hfuel.
+  - cbn [app] in *. unfold render in Hj, Htop. cbn [map concat render_item] in Hj, Htop. rewrite app_nil_r in Hj, Htop.
+    eapply runs_weaken; [|eapply run_top_short; [exact Htop|]].
+    + intros r (fin & st & ->). exists [], IMagic, [], [], fin, st.
+      split; [reflexivity|]. split; [|split; [rewrite app_nil_r; reflexivity | left; exists []; reflexivity]].
+      split; [cbn; lia|]. unfold render. cbn [app map concat render_item]. rewrite app_nil_r. exact Hj.
+    + rewrite blen_firstn by (cbn in *; lia). cbn in Hj. lia.
+  - inversion Hwf as [|x l W Hwf']; subst x l.
+    cbn [app] in *. change (render (it :: items ++ [IMagic])) with (render_item it ++ render (items ++ [IMagic])) in *.
+    cbn [file_steps fold_right] in *. fold (file_steps lo ds items) in *.
+    rewrite app_length in Hj.
+    destruct (Nat.lt_ge_cases j (length (render_item it))) as [Hc | Hc].
+    + rewrite firstn_app_lt in Htop by lia.
+      apply runs_mono with (R := (item_steps lo ds it + 1)%nat); [|lia].
+      eapply runs_weaken; [|eapply run_item_cut; try eassumption; lia].
+      intros r (partial & fin & st & -> & Hp).
+      exists [], it, (items ++ [IMagic]), partial, fin, st.
+      split; [reflexivity|]. split; [|split; [reflexivity | exact Hp]].
+      split; [cbn; lia|]. unfold render. cbn [app map concat]. rewrite app_nil_r. exact Hc.
+    + rewrite firstn_app_ge in Htop by exact Hc.
+      replace (item_steps lo ds it + file_steps lo ds items + 2)%nat
+        with (item_steps lo ds it + (file_steps lo ds items + 2))%nat by lia.
+      eapply run_item; try eassumption; [lia|].
+      intros s' Htop'.
+      eapply runs_weaken; [|eapply IH; try eassumption; lia].
+      intros r (done & it' & post & partial & fin & st & Hsplit & Hrange & -> & Hp).
+      exists (it :: done), it', post, partial, fin, st.
+      split; [cbn [app]; rewrite Hsplit; reflexivity|]. split; [|split; [|exact Hp]].
+      * change (render (it :: done)) with (render_item it ++ render done).
+        change (render ((it :: done) ++ [it'])) with (render_item it ++ render (done ++ [it'])).
+        rewrite !app_length. lia.
+      * change (file_events lo ds (it :: done)) with (item_events lo ds it ++ file_events lo ds done).
+        rewrite <- !app_assoc. reflexivity.
+Qed.
+
+Lemma event_prefix_ctx pre partial full post :
+  event_prefix partial full -> event_prefix (pre ++ partial) (pre ++ full ++ post).
+Proof.
+  intros [(more & ->) | (common & c & f & more & -> & -> & Hcut)].
+  - left. exists (more ++ post). rewrite <- !app_assoc. reflexivity.
+  - right. exists (pre ++ common), c, f, (more ++ post). split; [rewrite app_assoc; reflexivity|].
+    split; [|exact Hcut]. rewrite <- !app_assoc. reflexivity.
+Qed.
+
+(* where the cut falls and what is delivered: everything of the items before the cut item,
+   then a (possibly cut) prefix of the events of the cut item *)
+Definition cut_outcome (items : list item) (k : nat) (r : lres) : Prop :=
+  exists done it post partial fin st,
+    items = done ++ it :: post
+    /\ (length (render done) <= k < length (render (done ++ [it])))%nat
+    /\ r = Ok (file_events lo ds done ++ partial, fin, st)
+    /\ event_prefix partial (item_events lo ds it).
+
+Theorem C09_cut_thm items k sk :
+  wf_file lo ds items -> codec_prefix_ok ds -> (k < length (render items))%nat ->
+  forall fuel, (file_steps lo ds items + 3 <= fuel)%nat ->
+  let r := lex_all lo ds fuel (src_of (firstn k (render items)) sk) in
+  (lo_skip_magic lo = false /\ (k < 8)%nat /\ r = Err EBadMagic) \/ cut_outcome items k r.
+Proof.
+  intros (recs & -> & Hwf) Hcodec Hk fuel Hfuel r. subst r.
+  rewrite render_app in *. rewrite !file_steps_app in Hfuel. change (file_steps lo ds [IMagic]) with 1%nat in Hfuel.
+  set (R := render (recs ++ [IMagic])) in *.
+  destruct (Nat.lt_ge_cases k (length (render (lead_magic lo)))) as [Hlead | Hlead].
+  - left. unfold lead_magic in *. destruct (lo_skip_magic lo) eqn:Hskip; [cbn in Hlead; lia|].
+    unfold render in Hlead. cbn [map concat render_item] in Hlead. rewrite app_nil_r in Hlead. cbn [length magic] in Hlead.
+    split; [reflexivity|]. split; [exact Hlead|].
+    unfold lex_all, new_lexer, src_of. rewrite Hskip.
+    fold (rd (firstn k (render [IMagic] ++ R)) None sk).
+    rewrite rd_full_short; [reflexivity|].
+    rewrite blen_firstn by lia. lia.
+  - right. rewrite firstn_app_ge by exact Hlead.
+    destruct (new_lexer_ok lo (firstn (k - length (render (lead_magic lo))) R) sk) as (s & Htop & Hnew).
+    set (k' := (k - length (render (lead_magic lo)))%nat) in *.
+    rewrite app_length in Hk.
+    apply (lex_all_runs lo ds fuel (file_steps lo ds recs + 2) s _ _ Hnew); [|lia].
+    eapply runs_weaken; [|eapply (run_items_cut fuel sk Hcodec recs k' s []); try assumption; [unfold k'; fold R; lia | lia]].
+    intros r (done & it & post & partial & fin & st & Hsplit & Hrange & -> & Hp).
+    exists (lead_magic lo ++ done), it, post, partial, fin, st.
+    split; [rewrite Hsplit, <- app_assoc; reflexivity|]. split; [|split; [|exact Hp]].
+    + rewrite <- app_assoc, !render_app, !app_length in *. unfold k' in Hrange. lia.
+    + rewrite file_events_app, lead_magic_events. reflexivity.
+Qed.
+
+Lemma app_eq_prefix {A} : forall (a b x y : list A),
+  a ++ x = b ++ y -> (length a <= length b)%nat -> exists m, b = a ++ m.
+Proof.
+  induction a as [|h a IH]; intros b x y H L.
+  - exists b. reflexivity.
+  - destruct b as [|h' b]; cbn in L; [lia|]. cbn in H. inversion H; subst h'.
+    destruct (IH b x y) as (m & ->); [assumption | lia|]. exists m. reflexivity.
+Qed.
+
+Theorem C09_lexer_thm items k sk :
+  wf_file lo ds items -> codec_prefix_ok ds -> (k < length (render items))%nat ->
+  forall fuel, (file_steps lo ds items + 3 <= fuel)%nat ->
+  let r := lex_all lo ds fuel (src_of (firstn k (render items)) sk) in
+  (lo_skip_magic lo = false /\ (k < 8)%nat /\ r = Err EBadMagic)
+  \/ exists evs fin st,
+       r = Ok (evs, fin, st)
+       /\ event_prefix evs (file_events lo ds items)
+       /\ (forall pre it post, items = pre ++ it :: post ->
+             (length (render (pre ++ [it])) <= k)%nat ->
+             is_prefix (file_events lo ds (pre ++ [it])) evs).
+Proof.
+  intros Hwf Hcodec Hk fuel Hfuel r.
+  destruct (C09_cut_thm items k sk Hwf Hcodec Hk fuel Hfuel) as [Hbad | Hcut]; [left; exact Hbad|].
+  right. destruct Hcut as (done & it & post & partial & fin & st & Hsplit & Hrange & Hr & Hp).
+  exists (file_events lo ds done ++ partial), fin, st. split; [exact Hr|]. split.
+  - rewrite Hsplit. change (done ++ it :: post) with (done ++ [it] ++ post).
+    rewrite !file_events_app. change (file_events lo ds [it]) with (item_events lo ds it ++ []). rewrite app_nil_r.
+    apply event_prefix_ctx. exact Hp.
+  - intros pre it' post' Hsplit' Hlen.
+    destruct (Nat.le_gt_cases (length (pre ++ [it'])) (length done)) as [Hc | Hc].
+    + destruct (app_eq_prefix (pre ++ [it']) done post' (it :: post)) as (m & Hm).
+      { rewrite <- app_assoc. cbn [app]. rewrite <- Hsplit', <- Hsplit. reflexivity. }
+      { exact Hc. }
+      rewrite Hm, (file_events_app lo ds (pre ++ [it']) m), <- app_assoc. eexists. reflexivity.
+    + exfalso.
+      destruct (app_eq_prefix (done ++ [it]) (pre ++ [it']) post post') as (m & Hm).
+      { rewrite <- !app_assoc. cbn [app]. rewrite <- Hsplit', <- Hsplit. reflexivity. }
+      { rewrite !app_length in *. cbn [length] in *. lia. }
+      rewrite Hm, render_app, app_length in Hlen. lia.
+Qed.
+End Trunc.
+
+(* ====================================================================== *)
+(** * 6. events are only ever appended; Next never panics *)
+Section Mono.
+Variable lo : lopts.
+Variable ds : doracle.
+
+Lemma is_prefix_refl {A} (a : list A) : is_prefix a a.
+Proof. exists []. rewrite app_nil_r. reflexivity. Qed.
+Lemma is_prefix_trans {A} (a b c : list A) : is_prefix a b -> is_prefix b c -> is_prefix a c.
+Proof. intros (m1 & ->) (m2 & ->). exists (m1 ++ m2). rewrite app_assoc. reflexivity. Qed.
+Lemma is_prefix_app {A} (a m : list A) : is_prefix a (a ++ m).
+Proof. exists m. reflexivity. Qed.
+
+Definition extends (evs : list event) (r : outcome (list event * nres * lstate)) : Prop :=
+  match r with
+  | Ok (evs', _, _) => is_prefix evs evs'
+  | OutOfFuel => True
+  | _ => False
+  end.
+
+Lemma extends_weaken a b r : is_prefix a b -> extends b r -> extends a r.
+Proof.
+  intros H. destruct r as [[[evs' n] s]| | | |]; cbn; auto. intro H2. eapply is_prefix_trans; eassumption.
+Qed.
+
+Lemma lex_next_extends : forall f pcap s evs, extends evs (lex_next lo ds f pcap s evs).
+Proof.
+  induction f as [|f IH]; intros pcap s evs; [exact I|].
+  cbn [lex_next]. destruct (rd_full 9 (cur s)) as [[hd e] r1]. destruct e as [e|].
+  - destruct (_ && _); [apply IH|]. destruct (_ || _); [destruct (_ && _)|]; apply is_prefix_refl.
+  - destruct (_ && _); [apply is_prefix_refl|].
+    destruct (_ && _).
+    { destruct (load_chunk _ _ _ _) as [[e|] s2]; [|apply IH]. destruct (_ && _); apply is_prefix_refl. }
+    destruct (Byte.eqb _ OpAttachment).
+    { destruct (_ <? _); [apply is_prefix_refl|].
+      destruct (do_attachment _ _ _) as [[ev e] r2].
+      destruct e as [e|]; destruct ev as [ev|]; cbn; try apply is_prefix_refl; try apply is_prefix_app; try apply IH.
+      eapply extends_weaken; [|apply IH]. apply is_prefix_app. }
+    assert (Hms : forall s1, (exists s1', (if pcap <? unle (skipn 1 hd) then make_safe (unle (skipn 1 hd)) s1 else Ok s1) = Ok s1')
+                   \/ (exists e, (if pcap <? unle (skipn 1 hd) then make_safe (unle (skipn 1 hd)) s1 else Ok s1) = Err e)).
+    { intro s1. destruct (pcap <? _); [|left; eexists; reflexivity]. unfold make_safe.
+      destruct (_ <? max_int32); [left | right]; eexists; reflexivity. }
+    destruct (Hms (set_cur r1 s)) as [(s1' & ->) | (e & ->)]; [|apply is_prefix_refl].
+    destruct (rd_full _ (cur s1')) as [[body e] r2]. destruct e as [e|].
+    + destruct e; apply is_prefix_refl.
+    + destruct (known_op _); [apply is_prefix_refl|]. destruct (Byte.eqb _ x00); [apply is_prefix_refl | apply IH].
+Qed.
+
+Definition lextends (acc : list event) (r : lres) : Prop :=
+  match r with
+  | Ok (evs, _, _) => is_prefix acc evs
+  | OutOfFuel => True
+  | _ => False
+  end.
+
+Lemma lex_loop_extends fuel : forall n s acc, lextends acc (lex_loop lo ds n fuel s acc).
+Proof.
+  induction n as [|n IH]; intros s acc; [exact I|].
+  cbn [lex_loop]. pose proof (lex_next_extends fuel 0 s []) as H.
+  destruct (lex_next lo ds fuel 0 s []) as [[[evs r] s']| | | |]; cbn in H; try contradiction; try exact I.
+  destruct r as [ev | e].
+  - specialize (IH s' (acc ++ evs ++ [ev])).
+    destruct (lex_loop lo ds n fuel s' (acc ++ evs ++ [ev])) as [[[evs2 e2] st]| | | |]; cbn in *; auto.
+    eapply is_prefix_trans; [|exact IH]. apply is_prefix_app.
+  - cbn. apply is_prefix_app.
+Qed.
+End Mono.
+
+(* ====================================================================== *)
+(** * 7. damaged chunks and attachments (C07) *)
+Section Damage.
+Variable lo : lopts.
+Variable ds : doracle.
+
+Lemma lex_all_no_crash fuel src :
+  match lex_all lo ds fuel src with
+  | Ok _ | OutOfFuel | Err EBadMagic => True
+  | _ => False
+  end.
+Proof.
+  unfold lex_all, new_lexer. destruct (lo_skip_magic lo).
+  - pose proof (lex_loop_extends lo ds fuel fuel {| lx_base := src; lx_chunk := None; lx_ubuf := 0; lx_bufcap := 32; lx_allocs := [] |} []) as H.
+    destruct (lex_loop _ _ _ _ _ _) as [[[? ?] ?]| | | |]; cbn in H |- *; try exact I; contradiction.
+  - destruct (rd_full 8 src) as [[m e] r1]. destruct e; [exact I|]. destruct (bytes_eqb m magic); [|exact I].
+    match goal with |- match lex_loop lo ds fuel fuel ?s [] with _ => _ end =>
+      pose proof (lex_loop_extends lo ds fuel fuel s []) as H; destruct (lex_loop lo ds fuel fuel s []) as [[[? ?] ?]| | | |] end;
+      cbn in H |- *; try exact I; contradiction.
+Qed.
+
+(* decomposition of a well-formed file around one chunk *)
+Lemma app_snoc_split {A} (recs a post : list A) x y :
+  recs ++ [x] = a ++ y :: post -> y <> x -> exists post', post = post' ++ [x] /\ recs = a ++ y :: post'.
+Proof.
+  intros H Hne. destruct (exists_last (l := post)) as (post' & z & ->).
+  - intros ->. change (a ++ [y]) with (a ++ [y]) in H. apply app_inj_tail in H. destruct H as [_ H]. congruence.
+  - change (a ++ y :: post' ++ [z]) with (a ++ (y :: post') ++ [z]) in H. rewrite app_assoc in H.
+    apply app_inj_tail in H. destruct H as [H1 H2]. subst z. exists post'. split; [reflexivity | exact H1].
+Qed.
+
+Lemma wf_file_split pre k post :
+  wf_file lo ds (pre ++ IChunk k :: post) ->
+  exists pre' post', pre = lead_magic lo ++ pre' /\ post = post' ++ [IMagic]
+    /\ Forall (wf_item lo ds) pre' /\ wf_chunk_item lo ds k /\ Forall (wf_item lo ds) post'.
+Proof.
+  intros (recs & Heq & Hwf). unfold lead_magic in *.
+  assert (Hgen : forall pre0, recs ++ [IMagic] = pre0 ++ IChunk k :: post ->
+            exists post', post = post' ++ [IMagic] /\ Forall (wf_item lo ds) pre0 /\ wf_chunk_item lo ds k /\ Forall (wf_item lo ds) post').
+  { intros pre0 H. destruct (app_snoc_split recs pre0 post IMagic (IChunk k) H) as (post' & -> & ->); [discriminate|].
+    exists post'. split; [reflexivity|]. apply Forall_app in Hwf. destruct Hwf as [H1 H2].
+    inversion H2; subst. auto. }
+  destruct (lo_skip_magic lo).
+  - cbn [app] in Heq. destruct (Hgen pre (eq_sym Heq)) as (post' & -> & H1 & H2 & H3).
+    exists pre, post'. auto.
+  - destruct pre as [|p pre0]; cbn [app] in Heq; [discriminate|]. inversion Heq; subst p.
+    destruct (Hgen pre0 (eq_sym H1)) as (post' & -> & H2 & H3 & H4).
+    exists pre0, post'. auto.
+Qed.
+
+Lemma check_part_crc_bad s c0 base b us crc comp data extra pend :
+  in_chunk s c0 base -> us = blen data ->
+  (is_lz4 comp = true -> extra = [] /\ pend = None) ->
+  0 < crc -> crc32 data <> crc ->
+  exists s', check_part lo s b us crc comp (rd (data ++ extra) pend false) = (Some EInvalidChunkCrc, s')
+             /\ in_chunk s' (rd (if is_lz4 comp then [] else extra) pend false) base.
+Proof.
+  intros [Hc Hb] -> Hlz Hpos Hne. unfold check_part.
+  rewrite rd_full_exact by reflexivity. cbv beta iota zeta. fold (is_lz4 comp).
+  destruct (N.ltb_spec 0 crc); [|lia]. destruct (N.eqb_spec (crc32 data) crc); [contradiction|]. cbn [andb negb].
+  destruct (is_lz4 comp).
+  - destruct (Hlz eq_refl) as [-> ->]. cbn [rd r_buf r_end]. eexists; split; [reflexivity|]. split; cbn; auto.
+  - eexists; split; [reflexivity|]. split; cbn; auto.
+Qed.
+
+Lemma with_records_blen k r : blen r = blen (k_records k) -> blen (enc_chunk (with_records k r)) = blen (enc_chunk k).
+Proof. intro H. rewrite !enc_chunk_blen. cbn [with_records k_comp k_records]. lia. Qed.
+
+(* reading the header of a chunk whose payload was replaced by one of the same length, with
+   validation on: everything up to the check of the decompressed bytes *)
+Lemma damaged_chunk_load s k recs' rest e sk :
+  at_top s (rd (frame OpChunk (enc_chunk (with_records k recs')) ++ rest) e sk) ->
+  wf_chunk_item lo ds k -> lo_emit_chunks lo = false -> lo_validate lo = true ->
+  blen recs' = blen (k_records k) ->
+  let rlen := blen (enc_chunk k) in
+  let cs := chunk_stream lo ds (k_comp k) recs' None in
+  exists s1 s'',
+    (forall f evs, lex_next lo ds (S f) 0 s evs = after_head lo ds f 0 s1 evs OpChunk rlen)
+    /\ in_chunk s'' (rd (fst cs) (snd cs) false) (rd rest e sk)
+    /\ load_chunk lo ds rlen s1
+       = check_part lo s'' (rd (recs' ++ rest) e sk) (k_usize k) (k_crc k) (k_comp k) (rd (fst cs) (snd cs) false).
+Proof.
+  intros Htop (Wk & Wlen & W) Hemit Hv Hlen rlen cs. rewrite Hemit in W.
+  destruct W as (Wsup & Wneed & Wrecs & inner & Wstream & Wus & Winner & Wcrc & Wval).
+  destruct (Wval Hv) as (V1 & V2 & V3).
+  pose proof Wk as (_ & _ & Wu64 & Wc32 & Wcl & _).
+  set (k' := with_records k recs') in *.
+  assert (Hbl : blen (enc_chunk k') = rlen) by (apply with_records_blen; exact Hlen).
+  assert (Hb64 : rlen < two64).
+  { unfold rlen. rewrite enc_chunk_blen. unfold two63, two32, two64 in *. lia. }
+  set (s1 := set_cur (rd (enc_chunk k' ++ rest) e sk) s).
+  assert (Htop1 : at_top s1 (rd (enc_chunk k' ++ rest) e sk)) by (eapply at_top_set_cur; exact Htop).
+  rewrite enc_chunk_split in Htop1. cbn [k' with_records k_start k_end k_usize k_crc k_comp k_records] in Htop1.
+  destruct (load_chunk_eq lo ds rlen s1 _ _ _ _ _ _ _ _ _ Htop1) as (s' & [Hc' Hb'] & Hload); try assumption.
+  { rewrite Hlen. exact Wrecs. }
+  { unfold rlen. rewrite enc_chunk_blen. lia. }
+  rewrite take_app_exact, drop_app_exact in *.
+  rewrite blen_app in Hload. destruct (N.leb_spec (blen recs') (blen recs' + blen rest)); [|lia].
+  fold cs in Hload. cbv zeta in Hload.
+  destruct (finish_chunk_val lo s' (rd (recs' ++ rest) e sk) (k_usize k) (k_crc k) (k_comp k) (fst cs) (snd cs) Hv V2 V1)
+    as (s'' & Hin & Hfin).
+  exists s1, s''. split; [|split].
+  - intros f evs. unfold frame in Htop. rewrite <- app_assoc in Htop. rewrite Hbl in Htop.
+    apply (lex_next_head lo ds f 0 s evs OpChunk rlen _ e sk (at_top_cur _ _ Htop) Hb64).
+  - rewrite Hb' in Hin. exact Hin.
+  - rewrite Hload. exact Hfin.
+Qed.
+
+Lemma chunk_error_step s s1 rlen e s3 :
+  (forall f evs, lex_next lo ds (S f) 0 s evs = after_head lo ds f 0 s1 evs OpChunk rlen) ->
+  load_chunk lo ds rlen s1 = (Some e, s3) -> len_ok lo rlen -> lo_emit_chunks lo = false ->
+  forall f evs, lex_next lo ds (S f) 0 s evs =
+    if lo_emit_invalid lo && err_eqb e EInvalidChunkCrc then Ok (evs, NTok EvInvalidChunk, s3)
+    else Ok (evs, NErr e, s3).
+Proof.
+  intros Hhead Hl Hlim Hemit f evs. rewrite Hhead. unfold after_head. unfold len_ok in Hlim.
+  rewrite Hlim, Hemit, byte_eqb_refl, Hl. reflexivity.
+Qed.
+
+Lemma chunk_stream_none recs pend :
+  mem_bytes [] (lo_custom lo) = false -> chunk_stream lo ds [] recs pend = (recs, pend).
+Proof. intro H. unfold chunk_stream. rewrite H. reflexivity. Qed.
+
+(* the rest of a file after a position at top level: items, trailing magic *)
+Lemma run_tail fuel s tot post sk :
+  Forall (wf_item lo ds) post ->
+  at_top s (rd (render (post ++ [IMagic])) None sk) ->
+  (file_steps lo ds post < fuel)%nat ->
+  runs lo ds fuel (file_steps lo ds post) s tot (ends_with (tot ++ file_events lo ds post) EEOF).
+Proof.
+  intros Hwf Htop Hfuel. rewrite render_app in Htop.
+  replace (file_steps lo ds post) with (file_steps lo ds post + 0)%nat by lia.
+  apply run_items with (e := None) (sk := sk) (rest := render [IMagic]); try assumption; [lia|].
+  intros s' Htop'. unfold render in Htop'. cbn [map concat render_item] in Htop'. rewrite app_nil_r in Htop'.
+  destruct (lex_next_magic lo ds 0 s' sk Htop') as (s'' & Hend).
+  eapply (runs_end lo ds _ _ s' s'' _ []).
+  - intros f evs. rewrite app_nil_r. apply Hend.
+  - rewrite app_nil_r. exists s''. reflexivity.
+Qed.
+
+Theorem C07_uncompressed_byte_thm pre k post p1 b b' p2 sk :
+  wf_file lo ds (pre ++ IChunk k :: post) ->
+  lo_validate lo = true -> lo_emit_chunks lo = false ->
+  k_comp k = [] -> mem_bytes [] (lo_custom lo) = false -> k_crc k <> 0 ->
+  k_records k = p1 ++ b :: p2 -> b <> b' ->
+  let items' := pre ++ IChunk (with_records k (p1 ++ b' :: p2)) :: post in
+  forall fuel, (file_steps lo ds (pre ++ IChunk k :: post) + 1 <= fuel)%nat ->
+  exists st, lex_all lo ds fuel (src_of (render items') sk) =
+    if lo_emit_invalid lo
+    then Ok (file_events lo ds pre ++ EvInvalidChunk :: file_events lo ds post, EEOF, st)
+    else Ok (file_events lo ds pre, EInvalidChunkCrc, st).
+Proof.
+  intros Hwf Hv Hemit Hcomp Hcust Hcrc Hrecs Hne items' fuel Hfuel.
+  destruct (wf_file_split pre k post Hwf) as (pre' & post' & -> & -> & Hpre & Wk & Hpost).
+  set (recs' := p1 ++ b' :: p2) in *.
+  assert (Hlen : blen recs' = blen (k_records k)).
+  { unfold recs'. rewrite Hrecs, !blen_app. unfold blen. cbn [length]. reflexivity. }
+  pose proof Wk as (Wk0 & Wlen & W). rewrite Hemit in W.
+  destruct W as (Wsup & Wneed & Wrecs & inner & Wstream & Wus & Winner & Wcrcs & Wval).
+  rewrite Hcomp, chunk_stream_none in Wstream by exact Hcust. inversion Wstream as [Hplain].
+  assert (Hsteps : item_steps lo ds (IChunk k) = (2 + length inner)%nat).
+  { cbn [item_steps]. rewrite Hemit. f_equal. f_equal. apply chunk_inner_eq; [|exact Winner].
+    rewrite Hcomp, chunk_stream_none by exact Hcust. rewrite Hplain. reflexivity. }
+  rewrite !file_steps_app in Hfuel. cbn [file_steps fold_right] in Hfuel. fold (file_steps lo ds (post' ++ [IMagic])) in Hfuel.
+  rewrite file_steps_app, Hsteps in Hfuel. change (file_steps lo ds [IMagic]) with 1%nat in Hfuel.
+  unfold items'. rewrite <- app_assoc, render_app.
+  destruct (new_lexer_ok lo (render (pre' ++ IChunk (with_records k recs') :: post' ++ [IMagic])) sk) as (s & Htop & Hnew).
+  rewrite !file_events_app, lead_magic_events. cbn [app].
+  change (file_events lo ds [IMagic]) with (@nil event). rewrite app_nil_r.
+  set (P := fun r : lres => exists st, r = if lo_emit_invalid lo
+              then Ok (file_events lo ds pre' ++ EvInvalidChunk :: file_events lo ds post', EEOF, st)
+              else Ok (file_events lo ds pre', EInvalidChunkCrc, st)).
+  apply (lex_all_runs lo ds fuel (file_steps lo ds pre' + (1 + (1 + file_steps lo ds post'))) s _ P Hnew); [|lia].
+  rewrite render_app in Htop. change (render (IChunk (with_records k recs') :: post' ++ [IMagic]))
+    with (frame OpChunk (enc_chunk (with_records k recs')) ++ render (post' ++ [IMagic])) in Htop.
+  eapply run_items; try eassumption; [lia|].
+  intros s0 Htop0. cbn [app].
+  destruct (damaged_chunk_load s0 k recs' _ None sk Htop0 Wk Hemit Hv Hlen) as (s1 & s'' & Hhead & Hin & Hload).
+  rewrite Hcomp, chunk_stream_none in Hin, Hload by exact Hcust. cbn [fst snd] in Hin, Hload.
+  replace (rd recs' None false) with (rd (recs' ++ []) None false) in Hload by (rewrite app_nil_r; reflexivity).
+  destruct (check_part_crc_bad s'' _ _ (rd (recs' ++ render (post' ++ [IMagic])) None sk) (k_usize k) (k_crc k) [] recs' [] None Hin)
+    as (s3 & Hcp & Hin3).
+  { rewrite Wus, <- Hplain. symmetry. exact Hlen. }
+  { discriminate. }
+  { lia. }
+  { destruct Wcrcs as [Hz | Hc]; [contradiction|]. rewrite Hc, <- Hplain, Hrecs. unfold recs'.
+    intro E. symmetry in E. revert E. apply crc_detects_byte_error. exact Hne. }
+  rewrite Hcp in Hload.
+  pose proof (chunk_error_step s0 s1 _ _ s3 Hhead Hload Wlen Hemit) as Hstep.
+  unfold P. destruct (lo_emit_invalid lo); cbn [andb err_eqb] in Hstep.
+  - eapply runs_token; [exact Hstep | lia |].
+    change (is_lz4 []) with false in Hin3. cbv iota in Hin3.
+    destruct (lex_next_pop lo ds 0 s3 _ _ Hin3) as (s4 & Htop4 & Hpop).
+    eapply (runs_silent lo ds _ _ s3 s4 _ []).
+    { intros f evs. rewrite app_nil_r. apply Hpop. }
+    rewrite app_nil_r.
+    eapply runs_weaken; [|apply run_tail with (sk := sk); try eassumption; lia].
+    intros r (st & ->). exists st. rewrite <- app_assoc. reflexivity.
+  - eapply (runs_end lo ds _ _ s0 s3 _ []).
+    + intros f evs. rewrite app_nil_r. apply Hstep.
+    + rewrite app_nil_r. exists s3. reflexivity.
+Qed.
+
+Lemma take_drop n (b : bytes) : take n b ++ drop n b = b.
+Proof. unfold take, drop. apply firstn_skipn. Qed.
+Lemma blen_take n (b : bytes) : n <= blen b -> blen (take n b) = n.
+Proof. intro H. unfold take. rewrite N.min_l by exact H. unfold blen in *. rewrite firstn_length. lia. Qed.
+
+Lemma check_part_cases s c0 base b us crc comp plain' pend' :
+  in_chunk s c0 base -> 0 < crc ->
+  (exists e s', check_part lo s b us crc comp (rd plain' pend' false) = (Some e, s'))
+  \/ (exists data extra s',
+        plain' = data ++ extra /\ us = blen data /\ crc32 data = crc
+        /\ check_part lo s b us crc comp (rd plain' pend' false) = (None, s')
+        /\ in_chunk s' (rd data None true)
+             (if is_lazy lo comp then rd (drop (blen data) (r_buf b)) (r_end b) (r_seek b) else base)).
+Proof.
+  intros [Hc Hb] Hpos.
+  destruct (N.ltb_spec (blen plain') us) as [Hs | Hs].
+  { left. destruct (check_part_short lo s b us crc comp plain' pend' Hs) as (s' & E). eexists; eexists; exact E. }
+  set (data := take us plain'). set (extra := drop us plain').
+  assert (Hsplit : plain' = data ++ extra) by (symmetry; apply take_drop).
+  assert (Hus : us = blen data) by (symmetry; apply blen_take; exact Hs).
+  rewrite Hsplit. unfold check_part. rewrite rd_full_exact by exact Hus. cbv beta iota zeta.
+  fold (is_lz4 comp). fold (is_lazy lo comp). cbn [rd r_buf r_end].
+  destruct (N.ltb_spec 0 crc); [|lia]. cbn [andb].
+  assert (Hfin : forall s0 : lstate, lx_chunk s0 <> None -> lx_base s0 = base ->
+     (exists e s', (if negb (crc32 data =? crc) then (Some EInvalidChunkCrc, s0)
+        else (None, (if is_lazy lo comp then s0 <| lx_base := {| r_buf := drop (blen data) (r_buf b); r_end := r_end b; r_seek := r_seek b |} |> else s0)
+                     <| lx_chunk := Some {| r_buf := data; r_end := None; r_seek := true |} |>)) = (Some e, s'))
+     \/ (exists s', crc32 data = crc /\
+          (if negb (crc32 data =? crc) then (Some EInvalidChunkCrc, s0)
+        else (None, (if is_lazy lo comp then s0 <| lx_base := {| r_buf := drop (blen data) (r_buf b); r_end := r_end b; r_seek := r_seek b |} |> else s0)
+                     <| lx_chunk := Some {| r_buf := data; r_end := None; r_seek := true |} |>)) = (None, s')
+          /\ in_chunk s' (rd data None true)
+             (if is_lazy lo comp then rd (drop (blen data) (r_buf b)) (r_end b) (r_seek b) else base))).
+  { intros s0 _ Hb0. destruct (N.eqb_spec (crc32 data) crc) as [Ec | Ec]; cbn [negb].
+    - right. eexists. split; [exact Ec|]. split; [reflexivity|].
+      destruct (is_lazy lo comp); split; cbn; auto.
+    - left. eexists; eexists; reflexivity. }
+  destruct (is_lz4 comp).
+  - destruct extra as [|x extra]; destruct pend' as [pe|]; try (left; eexists; eexists; reflexivity).
+    destruct (Hfin (s <| lx_chunk := Some (rd [] None false) |> <| lx_chunk := Some {| r_buf := []; r_end := None; r_seek := false |} |>))
+      as [(e & s' & E) | (s' & Ec & E & Hin)]; try (cbn; congruence); try (cbn; assumption).
+    + left. exists e, s'. exact E.
+    + right. exists data, [], s'. repeat split; try assumption; apply Hin.
+  - destruct (Hfin (s <| lx_chunk := Some (rd extra pend' false) |>))
+      as [(e & s' & E) | (s' & Ec & E & Hin)]; try (cbn; congruence); try (cbn; assumption).
+    + left. exists e, s'. exact E.
+    + right. exists data, extra, s'. repeat split; try assumption; apply Hin.
+Qed.
+
+Lemma runs_token_any fuel R s s' tot ev :
+  (forall f evs, lex_next lo ds (S f) 0 s evs = Ok (evs, NTok ev, s')) ->
+  runs lo ds fuel R s tot (lextends (tot ++ [ev])).
+Proof.
+  intros Hstep n f evs acc Hn Hf Ht. destruct f as [|f]; [lia|].
+  unfold loop_from. rewrite Hstep. subst tot. rewrite <- app_assoc. apply lex_loop_extends.
+Qed.
+
+Theorem C07_chunk_general_thm pre k post recs' sk :
+  wf_file lo ds (pre ++ IChunk k :: post) ->
+  lo_validate lo = true -> lo_emit_chunks lo = false -> k_crc k <> 0 ->
+  blen recs' = blen (k_records k) ->
+  let items := pre ++ IChunk k :: post in
+  let items' := pre ++ IChunk (with_records k recs') :: post in
+  forall fuel, (file_steps lo ds items + 1 <= fuel)%nat ->
+  let r := lex_all lo ds fuel (src_of (render items') sk) in
+  (exists st, r = Ok (file_events lo ds items, EEOF, st))
+  \/ (exists e st, r = Ok (file_events lo ds pre, e, st))
+  \/ (lo_emit_invalid lo = true /\ lextends (file_events lo ds pre ++ [EvInvalidChunk]) r)
+  \/ crc_collision lo ds k recs'.
+Proof.
+  intros Hwf Hv Hemit Hcrc Hlen items items' fuel Hfuel r. subst r items items'.
+  destruct (wf_file_split pre k post Hwf) as (pre' & post' & -> & -> & Hpre & Wk & Hpost).
+  pose proof Wk as (Wk0 & Wlen & W). rewrite Hemit in W.
+  destruct W as (Wsup & Wneed & Wrecs & inner & Wstream & Wus & Winner & Wcrcs & Wval).
+  destruct (Wval Hv) as (V1 & V2 & V3).
+  assert (Hinner : chunk_inner lo ds k = inner) by (apply chunk_inner_eq; assumption).
+  assert (Hsteps : item_steps lo ds (IChunk k) = (2 + length inner)%nat).
+  { cbn [item_steps]. rewrite Hemit, Hinner. reflexivity. }
+  assert (Hevk : item_events lo ds (IChunk k) = concat (map rec_events inner)).
+  { cbn [item_events]. rewrite Hemit, Hinner. reflexivity. }
+  rewrite !file_steps_app in Hfuel. cbn [file_steps fold_right] in Hfuel. fold (file_steps lo ds (post' ++ [IMagic])) in Hfuel.
+  rewrite file_steps_app, Hsteps in Hfuel. change (file_steps lo ds [IMagic]) with 1%nat in Hfuel.
+  set (evpre := file_events lo ds pre').
+  set (evall := evpre ++ concat (map rec_events inner) ++ file_events lo ds post').
+  assert (E1 : file_events lo ds (lead_magic lo ++ pre') = evpre).
+  { rewrite file_events_app, lead_magic_events. reflexivity. }
+  assert (E2 : file_events lo ds ((lead_magic lo ++ pre') ++ IChunk k :: post' ++ [IMagic]) = evall).
+  { rewrite file_events_app, E1. change (IChunk k :: post' ++ [IMagic]) with ([IChunk k] ++ post' ++ [IMagic]).
+    rewrite !file_events_app. change (file_events lo ds [IMagic]) with (@nil event).
+    change (file_events lo ds [IChunk k]) with (item_events lo ds (IChunk k) ++ []).
+    rewrite Hevk, !app_nil_r. reflexivity. }
+  rewrite E1, E2.
+  set (rest := render (post' ++ [IMagic])).
+  assert (E3 : render ((lead_magic lo ++ pre') ++ IChunk (with_records k recs') :: post' ++ [IMagic])
+               = render (lead_magic lo) ++ render pre' ++ frame OpChunk (enc_chunk (with_records k recs')) ++ rest).
+  { rewrite <- app_assoc, !render_app. reflexivity. }
+  rewrite E3.
+  destruct (new_lexer_ok lo (render pre' ++ frame OpChunk (enc_chunk (with_records k recs')) ++ rest) sk) as (s & Htop & Hnew).
+  set (src := src_of _ sk) in *.
+  set (P := fun r : lres =>
+     (exists st, r = Ok (evall, EEOF, st))
+     \/ (exists e st, r = Ok (evpre, e, st))
+     \/ (lo_emit_invalid lo = true /\ lextends (evpre ++ [EvInvalidChunk]) r)
+     \/ crc_collision lo ds k recs').
+  change (P (lex_all lo ds fuel src)).
+  set (Rn := (file_steps lo ds pre' + (1 + (length inner + (1 + file_steps lo ds post'))))%nat).
+  apply (lex_all_runs lo ds fuel Rn s src P Hnew); [|unfold Rn; lia].
+  unfold Rn. eapply run_items with (e := None) (sk := sk); try eassumption; [lia|].
+  intros s0 Htop0. cbn [app]. fold evpre.
+  destruct (damaged_chunk_load s0 k recs' _ None sk Htop0 Wk Hemit Hv Hlen) as (s1 & s'' & Hhead & Hin & Hload).
+  set (cs := chunk_stream lo ds (k_comp k) recs' None) in *.
+  destruct (check_part_cases s'' _ _ (rd (recs' ++ rest) None sk) (k_usize k) (k_crc k) (k_comp k) (fst cs) (snd cs) Hin)
+    as [(e & s3 & Hcp) | (data & extra & s3 & Hsplit & Husd & Hcrcd & Hcp & Hin3)]; [lia| |].
+  - (* an error of loadChunk *)
+    rewrite Hcp in Hload.
+    pose proof (chunk_error_step s0 s1 _ _ s3 Hhead Hload Wlen Hemit) as Hstep.
+    destruct (lo_emit_invalid lo && err_eqb e EInvalidChunkCrc) eqn:Hinv.
+    + apply andb_true_iff in Hinv. destruct Hinv as [Hinv _].
+      eapply runs_weaken; [|eapply runs_token_any; exact Hstep].
+      intros r Hr. right. right. left. split; [exact Hinv | exact Hr].
+    + eapply (runs_end lo ds _ _ s0 s3 _ [] e).
+      * intros f evs. rewrite app_nil_r. apply Hstep.
+      * rewrite app_nil_r. right. left. exists e, s3. reflexivity.
+  - (* the decompressed bytes pass the CRC check *)
+    destruct (list_eq_dec Byte.byte_eq_dec data (frames inner)) as [Hsame | Hdiff].
+    + (* same bytes: the read is identical *)
+      subst data. rewrite Hcp in Hload.
+      assert (Hin3' : in_chunk s3 (rd (frames inner ++ []) None true) (rd rest None sk)).
+      { rewrite app_nil_r. destruct (is_lazy lo (k_comp k)) eqn:Hl; [|exact Hin3].
+        cbn [rd r_buf r_end r_seek] in Hin3.
+        rewrite (lazy_len lo ds _ _ _ _ Hl Wstream V3 Wus), <- Hlen, drop_app_exact in Hin3. exact Hin3. }
+      eapply (runs_silent lo ds _ _ s0 s3 _ []).
+      { intros f evs. rewrite app_nil_r, Hhead. apply after_head_chunk_ok; assumption. }
+      rewrite app_nil_r.
+      eapply (run_inner lo ds fuel _ (rd rest None sk) None true []); try eassumption; [lia|].
+      intros s4 Hin4.
+      destruct (lex_next_pop lo ds 0 s4 _ _ Hin4) as (s5 & Htop5 & Hpop).
+      eapply (runs_silent lo ds _ _ s4 s5 _ []).
+      { intros f evs. rewrite app_nil_r. apply Hpop. }
+      rewrite app_nil_r.
+      eapply runs_weaken; [|apply run_tail with (sk := sk); try eassumption; lia].
+      intros r (st & ->). left. exists st. unfold evall. rewrite <- !app_assoc. reflexivity.
+    + (* different bytes with the same length and CRC *)
+      intros n f evs acc _ _ _. right. right. right.
+      exists data, extra. unfold chunk_plain. rewrite Wstream. cbn [fst]. fold cs.
+      split; [exact Hsplit|]. split; [exact Hdiff|]. split; [rewrite <- Husd; exact Wus|].
+      destruct Wcrcs as [Hz | Hc]; [contradiction | rewrite Hcrcd; exact Hc].
+Qed.
+
+(* an altered attachment that still frames (no length prefix was hit): the callback sees a computed
+   CRC that differs from the stored one *)
+Theorem C07_attachment_thm pre a data a' data' post p1 b b' p2 sk :
+  let crc := crc32 (enc_attachment_fields a ++ data) in
+  wf_file lo ds (pre ++ IAttach a' data' crc :: post) ->
+  lo_cb lo = CbFull -> lo_compute_acrc lo = true ->
+  enc_attachment_fields a ++ data = p1 ++ b :: p2 ->
+  enc_attachment_fields a' ++ data' = p1 ++ b' :: p2 ->
+  b <> b' ->
+  forall fuel, (file_steps lo ds (pre ++ IAttach a' data' crc :: post) + 1 <= fuel)%nat ->
+  exists st ob c1 c2,
+    lex_all lo ds fuel (src_of (render (pre ++ IAttach a' data' crc :: post)) sk)
+      = Ok (file_events lo ds pre ++ EvAttachment ob :: file_events lo ds post, EEOF, st)
+    /\ ao_name ob = a_name a' /\ ao_data ob = data'
+    /\ ao_computed ob = Ok c1 /\ ao_parsed ob = Ok c2 /\ c1 <> c2.
+Proof.
+  intros crc Hwf Hcb Hacrc Hold Hnew Hne fuel Hfuel.
+  destruct (lex_render_thm lo ds _ sk Hwf fuel Hfuel) as (st & Hr).
+  exists st, (attach_obs lo a' data' crc), (crc32 (enc_attachment_fields a' ++ data')), crc.
+  split.
+  - rewrite Hr. change (pre ++ IAttach a' data' crc :: post) with (pre ++ [IAttach a' data' crc] ++ post).
+    rewrite !file_events_app. unfold file_events at 2. cbn [map concat item_events]. rewrite Hcb. reflexivity.
+  - unfold attach_obs. cbn [ao_name ao_data ao_computed ao_parsed]. rewrite Hacrc. repeat split.
+    unfold crc. rewrite Hold, Hnew. intro E. symmetry in E. revert E. apply crc_detects_byte_error. exact Hne.
+Qed.
+End Damage.
+
+(* ====================================================================== *)
+(** * 8. one content byte of an attachment replaced *)
+Section Flip.
+Variable lo : lopts.
+Variable ds : doracle.
+
+Lemma wf_file_split_item pre it post :
+  it <> IMagic ->
+  wf_file lo ds (pre ++ it :: post) ->
+  exists pre' post', pre = lead_magic lo ++ pre' /\ post = post' ++ [IMagic]
+    /\ Forall (wf_item lo ds) pre' /\ wf_item lo ds it /\ Forall (wf_item lo ds) post'.
+Proof.
+  intros Hit (recs & Heq & Hwf). unfold lead_magic in *.
+  assert (Hgen : forall pre0, recs ++ [IMagic] = pre0 ++ it :: post ->
+            exists post', post = post' ++ [IMagic] /\ Forall (wf_item lo ds) pre0 /\ wf_item lo ds it /\ Forall (wf_item lo ds) post').
+  { intros pre0 H. destruct (app_snoc_split recs pre0 post IMagic it H) as (post' & -> & ->); [exact Hit|].
+    exists post'. split; [reflexivity|]. apply Forall_app in Hwf. destruct Hwf as [H1 H2].
+    inversion H2; subst. auto. }
+  destruct (lo_skip_magic lo).
+  - cbn [app] in Heq. destruct (Hgen pre (eq_sym Heq)) as (post' & -> & H1 & H2 & H3).
+    exists pre, post'. auto.
+  - destruct pre as [|p pre0]; cbn [app] in Heq.
+    + inversion Heq. congruence.
+    + inversion Heq; subst p.
+      destruct (Hgen pre0 (eq_sym H1)) as (post' & -> & H2 & H3 & H4).
+      exists pre0, post'. auto.
+Qed.
+
+Lemma wf_file_replace pre it it' post :
+  it <> IMagic -> wf_file lo ds (pre ++ it :: post) -> wf_item lo ds it' -> wf_file lo ds (pre ++ it' :: post).
+Proof.
+  intros Hit Hwf Hit'.
+  destruct (wf_file_split_item pre it post Hit Hwf) as (pre' & post' & -> & -> & H1 & H2 & H3).
+  exists (pre' ++ it' :: post'). split.
+  - rewrite <- !app_assoc. reflexivity.
+  - apply Forall_app. split; [exact H1|]. constructor; assumption.
+Qed.
+
+Lemma blen_flip (p1 p2 : bytes) x y : blen (p1 ++ y :: p2) = blen (p1 ++ x :: p2).
+Proof. rewrite !blen_app. unfold blen. cbn [length]. reflexivity. Qed.
+
+Lemma u64_unle_flip v q1 x y q2 : u64 v = q1 ++ x :: q2 -> u64 (unle (q1 ++ y :: q2)) = q1 ++ y :: q2.
+Proof.
+  intro H. assert (L : length (q1 ++ y :: q2) = 8%nat).
+  { apply (f_equal (@length byte)) in H. rewrite u64_length in H. rewrite app_length in *. cbn [length] in *. lia. }
+  unfold u64. rewrite <- L. apply le_unle.
+Qed.
+
+Lemma unle_flip_bound v q1 x y q2 : u64 v = q1 ++ x :: q2 -> unle (q1 ++ y :: q2) < two64.
+Proof.
+  intro H. assert (L : length (q1 ++ y :: q2) = 8%nat).
+  { apply (f_equal (@length byte)) in H. rewrite u64_length in H. rewrite app_length in *. cbn [length] in *. lia. }
+  pose proof (unle_bound (q1 ++ y :: q2)) as B. rewrite L in B. exact B.
+Qed.
+
+Lemma att_content_flip_spec a data a' data' crc :
+  att_content_flip a data a' data' -> wf_attach_item lo a data crc ->
+  wf_attach_item lo a' data' crc
+  /\ exists p1 b b' p2,
+       enc_attachment_fields a ++ data = p1 ++ b :: p2
+       /\ enc_attachment_fields a' ++ data' = p1 ++ b' :: p2
+       /\ b <> b'.
+Proof.
+  intros Hf (W1 & W2 & W3 & W4 & W5 & W6 & W7 & W8 & W9).
+  assert (Hgoal : forall p1 b b' p2,
+     enc_attachment_fields a ++ data = p1 ++ b :: p2 ->
+     enc_attachment_fields a' ++ data' = p1 ++ b' :: p2 -> b <> b' ->
+     a_log a' < two64 -> a_create a' < two64 -> blen (a_name a') < two32 -> blen (a_media a') < two32 ->
+     a_size a' = blen data' ->
+     wf_attach_item lo a' data' crc /\ exists p1 b b' p2,
+       enc_attachment_fields a ++ data = p1 ++ b :: p2 /\ enc_attachment_fields a' ++ data' = p1 ++ b' :: p2 /\ b <> b').
+  { intros p1 b b' p2 E1 E2 Hne G1 G2 G3 G4 G5.
+    assert (Hbl : blen (attach_body a' data' crc) = blen (attach_body a data crc)).
+    { unfold attach_body. rewrite !app_assoc, (blen_app (_ ++ data')), (blen_app (_ ++ data)), E1, E2, (blen_flip p1 p2 b b'). reflexivity. }
+    split; [|exists p1, b, b', p2; auto].
+    unfold wf_attach_item. rewrite Hbl. repeat split; assumption. }
+  destruct Hf as [d1 x y d2 Hd Hne | n1 x y n2 Hn Hne | m1 x y m2 Hm Hne | q1 x y q2 Hq Hne | q1 x y q2 Hq Hne];
+    unfold att_with, enc_attachment_fields; cbn [a_log a_create a_name a_media a_size].
+  - subst data.
+    apply (Hgoal (enc_attachment_fields a ++ d1) x y d2); unfold att_with; cbn [a_log a_create a_name a_media a_size]; try assumption.
+    + rewrite <- app_assoc. reflexivity.
+    + unfold enc_attachment_fields. cbn [a_log a_create a_name a_media a_size]. rewrite <- !app_assoc. reflexivity.
+    + rewrite W5. symmetry. apply blen_flip.
+  - apply (Hgoal (u64 (a_log a) ++ u64 (a_create a) ++ u32 (blen (a_name a)) ++ n1) x y
+                 (n2 ++ pstr (a_media a) ++ u64 (a_size a) ++ data)); unfold att_with; cbn [a_log a_create a_name a_media a_size]; try assumption.
+    + unfold enc_attachment_fields, pstr. rewrite Hn, <- !app_assoc. reflexivity.
+    + unfold enc_attachment_fields, pstr. cbn [a_log a_create a_name a_media a_size].
+      rewrite blen_flip with (x := x), <- Hn, <- !app_assoc. reflexivity.
+    + rewrite blen_flip with (x := x), <- Hn. exact W3.
+  - apply (Hgoal (u64 (a_log a) ++ u64 (a_create a) ++ pstr (a_name a) ++ u32 (blen (a_media a)) ++ m1) x y
+                 (m2 ++ u64 (a_size a) ++ data)); unfold att_with; cbn [a_log a_create a_name a_media a_size]; try assumption.
+    + unfold enc_attachment_fields. unfold pstr at 2. rewrite Hm, <- !app_assoc. reflexivity.
+    + unfold enc_attachment_fields. cbn [a_log a_create a_name a_media a_size]. unfold pstr at 2.
+      rewrite blen_flip with (x := x), <- Hm, <- !app_assoc. reflexivity.
+    + rewrite blen_flip with (x := x), <- Hm. exact W4.
+  - apply (Hgoal q1 x y (q2 ++ u64 (a_create a) ++ pstr (a_name a) ++ pstr (a_media a) ++ u64 (a_size a) ++ data));
+      unfold att_with; cbn [a_log a_create a_name a_media a_size]; try assumption.
+    + unfold enc_attachment_fields. rewrite Hq, <- !app_assoc. reflexivity.
+    + unfold enc_attachment_fields. cbn [a_log a_create a_name a_media a_size].
+      rewrite (u64_unle_flip _ _ _ _ _ Hq), <- !app_assoc. reflexivity.
+    + apply (unle_flip_bound _ _ _ _ _ Hq).
+  - apply (Hgoal (u64 (a_log a) ++ q1) x y (q2 ++ pstr (a_name a) ++ pstr (a_media a) ++ u64 (a_size a) ++ data));
+      unfold att_with; cbn [a_log a_create a_name a_media a_size]; try assumption.
+    + unfold enc_attachment_fields. rewrite Hq, <- !app_assoc. reflexivity.
+    + unfold enc_attachment_fields. cbn [a_log a_create a_name a_media a_size].
+      rewrite (u64_unle_flip _ _ _ _ _ Hq), <- !app_assoc. reflexivity.
+    + apply (unle_flip_bound _ _ _ _ _ Hq).
+Qed.
+
+(* the damaged record is the original one with exactly one byte replaced, strictly between the
+   9-byte record head and the 4-byte stored CRC *)
+Lemma att_content_flip_render a data a' data' crc :
+  att_content_flip a data a' data' -> wf_attach_item lo a data crc ->
+  exists hd p1 b b' p2,
+    render_item (IAttach a data crc) = hd ++ p1 ++ b :: p2 ++ u32 crc
+    /\ render_item (IAttach a' data' crc) = hd ++ p1 ++ b' :: p2 ++ u32 crc
+    /\ b <> b' /\ length hd = 9%nat.
+Proof.
+  intros Hf W. destruct (att_content_flip_spec a data a' data' crc Hf W) as (W' & p1 & b & b' & p2 & E1 & E2 & Hne).
+  exists (frame_head OpAttachment (blen (attach_body a data crc))), p1, b, b', p2.
+  assert (Hbl : blen (attach_body a' data' crc) = blen (attach_body a data crc)).
+  { unfold attach_body. rewrite !app_assoc, (blen_app (_ ++ data')), (blen_app (_ ++ data)), E1, E2, (blen_flip p1 p2 b b'). reflexivity. }
+  cbn [render_item]. fold (attach_body a data crc). fold (attach_body a' data' crc). unfold frame. rewrite Hbl.
+  unfold attach_body.
+  rewrite (app_assoc (enc_attachment_fields a) data), (app_assoc (enc_attachment_fields a') data'), E1, E2.
+  rewrite <- !app_assoc. cbn [app].
+  repeat split; try assumption; apply frame_head_length.
+Qed.
+
+Theorem C07_attachment_flip_thm pre a data a' data' post sk :
+  let crc := crc32 (enc_attachment_fields a ++ data) in
+  wf_file lo ds (pre ++ IAttach a data crc :: post) ->
+  lo_cb lo = CbFull -> lo_compute_acrc lo = true ->
+  att_content_flip a data a' data' ->
+  forall fuel, (file_steps lo ds (pre ++ IAttach a data crc :: post) + 1 <= fuel)%nat ->
+  exists st ob c1 c2,
+    lex_all lo ds fuel (src_of (render (pre ++ IAttach a' data' crc :: post)) sk)
+      = Ok (file_events lo ds pre ++ EvAttachment ob :: file_events lo ds post, EEOF, st)
+    /\ ao_name ob = a_name a' /\ ao_data ob = data'
+    /\ ao_computed ob = Ok c1 /\ ao_parsed ob = Ok c2 /\ c1 <> c2.
+Proof.
+  intros crc Hwf Hcb Hacrc Hf fuel Hfuel.
+  assert (Hnm : IAttach a data crc <> IMagic) by discriminate.
+  destruct (wf_file_split_item pre _ post Hnm Hwf) as (pre' & post' & Ep & Eq & H1 & W & H3).
+  destruct (att_content_flip_spec a data a' data' crc Hf W) as (W' & p1 & b & b' & p2 & E1 & E2 & Hne).
+  apply (C07_attachment_thm lo ds pre a data a' data' post p1 b b' p2 sk); try assumption.
+  - apply (wf_file_replace pre (IAttach a data crc)); [discriminate | exact Hwf | exact W'].
+  - rewrite file_steps_app in *. exact Hfuel.
+Qed.
+
+(* the stored CRC itself altered *)
+Theorem C07_attachment_crc_thm pre a data crc' post sk :
+  wf_file lo ds (pre ++ IAttach a data crc' :: post) ->
+  lo_cb lo = CbFull -> lo_compute_acrc lo = true ->
+  crc' <> crc32 (enc_attachment_fields a ++ data) ->
+  forall fuel, (file_steps lo ds (pre ++ IAttach a data crc' :: post) + 1 <= fuel)%nat ->
+  exists st ob c1 c2,
+    lex_all lo ds fuel (src_of (render (pre ++ IAttach a data crc' :: post)) sk)
+      = Ok (file_events lo ds pre ++ EvAttachment ob :: file_events lo ds post, EEOF, st)
+    /\ ao_computed ob = Ok c1 /\ ao_parsed ob = Ok c2 /\ c1 <> c2.
+Proof.
+  intros Hwf Hcb Hacrc Hne fuel Hfuel.
+  destruct (lex_render_thm lo ds _ sk Hwf fuel Hfuel) as (st & Hr).
+  exists st, (attach_obs lo a data crc'), (crc32 (enc_attachment_fields a ++ data)), crc'.
+  split.
+  - rewrite Hr. change (pre ++ IAttach a data crc' :: post) with (pre ++ [IAttach a data crc'] ++ post).
+    rewrite !file_events_app. unfold file_events at 2. cbn [map concat item_events]. rewrite Hcb. reflexivity.
+  - unfold attach_obs. cbn [ao_computed ao_parsed]. rewrite Hacrc. repeat split. congruence.
+Qed.
+End Flip.
